@@ -4,13 +4,2096 @@ From Verif Require Import Json.Ext Generated.JsonParseGen Json.Grammar Json.Spec
 From Coq Require Import ZifyBool.
 Open Scope Z_scope.
 
+(* ================= basic facts on machine integers and slices ================= *)
+Local Ltac zlia := Z.div_mod_to_equations; lia.
+
+Lemma s64_small x : - 2 ^ 63 <= x < 2 ^ 63 -> s64 x = x.
+Proof.
+  intros H. unfold s64, w64. cbv zeta.
+  change (2 ^ 64) with 18446744073709551616 in *. change (2 ^ 63) with 9223372036854775808 in *.
+  destruct (Z.ltb_spec (x mod 18446744073709551616) 9223372036854775808); zlia.
+Qed.
+Lemma addi64_small a b : - 2 ^ 63 <= a + b < 2 ^ 63 -> addi64 a b = a + b.
+Proof. apply s64_small. Qed.
+Lemma subi64_small a b : - 2 ^ 63 <= a - b < 2 ^ 63 -> subi64 a b = a - b.
+Proof. apply s64_small. Qed.
+Lemma divi64_8 x : 0 <= x < 2 ^ 63 -> divi64 x 8 = x / 8.
+Proof.
+  intros H. unfold divi64. rewrite Z.quot_div_nonneg by lia. apply s64_small.
+  change (2 ^ 63) with 9223372036854775808 in *. zlia.
+Qed.
+
+Lemma len_nil {A} : len (@nil A) = 0.
+Proof. reflexivity. Qed.
+Lemma len_cons {A} (x : A) r : len (x :: r) = len r + 1.
+Proof. unfold len. cbn [length]. lia. Qed.
+Lemma len_app {A} (a b : list A) : len (a ++ b) = len a + len b.
+Proof. unfold len. rewrite app_length. lia. Qed.
+Lemma len_nonneg {A} (a : list A) : 0 <= len a.
+Proof. unfold len. lia. Qed.
+Lemma len_0_nil {A} (a : list A) : len a = 0 -> a = [].
+Proof. destruct a as [|x a]; [reflexivity|]. rewrite len_cons. pose proof (len_nonneg a). lia. Qed.
+
+Lemma sf_cons b i c r : 0 <= i -> slice_from b i = c :: r ->
+  i < len b /\ at_ b i = c /\ slice_from b (i + 1) = r.
+Proof.
+  unfold slice_from, at_, len. intros Hi E.
+  replace (Z.to_nat (i + 1)) with (S (Z.to_nat i)) by lia.
+  remember (Z.to_nat i) as k eqn:Hk. assert (Hik : i = Z.of_nat k) by lia. clear Hk. subst i. clear Hi.
+  revert b E. induction k as [|k IH]; intros b E.
+  - cbn [skipn] in E. subst b. cbn [length nth skipn]. repeat split; lia.
+  - destruct b as [|x b]; [discriminate|]. cbn [skipn] in E. destruct (IH b E) as (H1 & H2 & H3).
+    cbn [length nth]. repeat split; [lia|assumption|]. exact H3.
+Qed.
+Lemma sf_nil (b : bytes) i : 0 <= i -> slice_from b i = [] -> len b <= i.
+Proof.
+  unfold slice_from, len. intros Hi E.
+  assert (H : length (skipn (Z.to_nat i) b) = 0%nat) by (rewrite E; reflexivity).
+  rewrite skipn_length in H. lia.
+Qed.
+Lemma sf_cons' b i c r : slice_from b i = c :: r -> 0 <= i ->
+  i < len b /\ at_ b i = c /\ slice_from b (i + 1) = r.
+Proof. intros; apply sf_cons; assumption. Qed.
+Lemma sf_nil' (b : bytes) i : slice_from b i = [] -> 0 <= i -> len b <= i.
+Proof. intros; apply sf_nil; assumption. Qed.
+Lemma sf_len (b : bytes) i : 0 <= i <= len b -> len (slice_from b i) = len b - i.
+Proof. unfold slice_from, len. intros H. rewrite skipn_length. lia. Qed.
+Lemma sf_0 {A} (b : list A) : slice_from b 0 = b.
+Proof. reflexivity. Qed.
+Lemma sf_all {A} (b : list A) : slice_from b (len b) = [].
+Proof. unfold slice_from, len. rewrite Nat2Z.id. apply skipn_all. Qed.
+Lemma st_sf {A} (b : list A) i : slice_to b i ++ slice_from b i = b.
+Proof. apply firstn_skipn. Qed.
+Lemma sf_app {A} (p r : list A) : slice_from (p ++ r) (len p) = r.
+Proof.
+  unfold slice_from, len. rewrite Nat2Z.id. rewrite skipn_app, skipn_all, Nat.sub_diag. reflexivity.
+Qed.
+Lemma st_app {A} (p r : list A) : slice_to (p ++ r) (len p) = p.
+Proof.
+  unfold slice_to, len. rewrite Nat2Z.id. rewrite firstn_app, firstn_all, Nat.sub_diag. cbn [firstn].
+  apply app_nil_r.
+Qed.
+Lemma sf_1 {A} (c : A) r : slice_from (c :: r) 1 = r.
+Proof. reflexivity. Qed.
+Lemma at_0 c r : at_ (c :: r) 0 = c.
+Proof. reflexivity. Qed.
+Lemma at_hd b i : 0 <= i -> at_ b i = hd 0 (slice_from b i).
+Proof.
+  intros Hi. destruct (slice_from b i) as [|c r] eqn:E.
+  - apply sf_nil in E; [|assumption]. unfold at_. apply nth_overflow. unfold len in E. lia.
+  - apply sf_cons in E; [|assumption]. cbn [hd]. tauto.
+Qed.
+Lemma wfb_sf b i : wfb b = true -> wfb (slice_from b i) = true.
+Proof. apply wfb_skipn. Qed.
+Lemma wfb_st b i : wfb b = true -> wfb (slice_to b i) = true.
+Proof. apply wfb_firstn. Qed.
+
+(* ================= find_index, first_index, index_byte ================= *)
+Lemma find_index_le p s : (find_index p s <= length s)%nat.
+Proof. induction s as [|c r IH]; cbn [find_index length]; [lia|]. destruct (p c); lia. Qed.
+Lemma first_index_find p s i :
+  first_index p i s = if (find_index p s <? length s)%nat then i + Z.of_nat (find_index p s) else -1.
+Proof.
+  revert i; induction s as [|c r IH]; intros i; cbn [first_index find_index length]; [reflexivity|].
+  destruct (p c); [cbn; f_equal; lia|]. rewrite IH.
+  change (S (find_index p r) <? S (length r))%nat with (find_index p r <? length r)%nat.
+  destruct (find_index p r <? length r)%nat; lia.
+Qed.
+Definition eqc (c x : Z) : bool := x =? c.
+Lemma index_byte_find s c :
+  index_byte s c = if (find_index (eqc c) s <? length s)%nat then Z.of_nat (find_index (eqc c) s) else -1.
+Proof.
+  unfold index_byte.
+  assert (G : forall s i, index_byte_from i s c = first_index (eqc c) i s).
+  { clear. induction s as [|x r IH]; intros i; cbn; [reflexivity|]. rewrite IH. reflexivity. }
+  rewrite G, first_index_find. reflexivity.
+Qed.
+Lemma find_index_app_none p a b : forallb (fun x => negb (p x)) a = true ->
+  find_index p (a ++ b) = (length a + find_index p b)%nat.
+Proof.
+  induction a as [|x a IH]; cbn [forallb app find_index length]; [reflexivity|].
+  intros H. apply andb_true_iff in H. destruct H as [H1 H2]. apply negb_true_iff in H1. rewrite H1.
+  rewrite IH by assumption. reflexivity.
+Qed.
+Lemma find_index_app_some p a b : (find_index p a < length a)%nat ->
+  find_index p (a ++ b) = find_index p a.
+Proof.
+  induction a as [|x a IH]; cbn [app find_index length]; [lia|].
+  destruct (p x); [reflexivity|]. intros H. rewrite IH by lia. reflexivity.
+Qed.
+Lemma find_index_none p a : find_index p a = length a <-> forallb (fun x => negb (p x)) a = true.
+Proof.
+  induction a as [|x a IH]; cbn [find_index forallb length]; [tauto|].
+  destruct (p x); cbn [negb andb]; [split; [lia|discriminate]|]. rewrite <- IH. lia.
+Qed.
+Lemma find_index_split p s : (find_index p s < length s)%nat ->
+  exists c r, s = firstn (find_index p s) s ++ c :: r /\ p c = true /\
+    forallb (fun x => negb (p x)) (firstn (find_index p s) s) = true.
+Proof.
+  induction s as [|x s IH]; cbn [find_index length]; [lia|].
+  destruct (p x) eqn:E.
+  - intros _. exists x, s. cbn [firstn app forallb]. auto.
+  - intros H. destruct IH as (c & r & H1 & H2 & H3); [lia|]. exists c, r. cbn [firstn app forallb].
+    rewrite <- H1, E, H3. auto.
+Qed.
+
+(* ================= escapeIndex ================= *)
+Lemma needs_escape_same html c : LanesProofs.needs_escape html c = needs_escape_json html c.
+Proof. reflexivity. Qed.
+
+Lemma w64_wN x : w64 x = wN 8 x.
+Proof. reflexivity. Qed.
+Lemma json_lsb_eq : json_lsb = lsbN 8.
+Proof. reflexivity. Qed.
+Lemma json_msb_eq : json_msb = msbN 8.
+Proof. reflexivity. Qed.
+
+Lemma lsb_mul_small c : 0 <= c < 256 -> w64 (json_lsb * c) = lsbN 8 * c.
+Proof.
+  intros Hc. rewrite json_lsb_eq. apply w64_small. change (lsbN 8) with 72340172838076673.
+  change (2 ^ 64) with 18446744073709551616. lia.
+Qed.
+Lemma json_below_eq n c : 0 <= c < 256 -> json_below n c = below_w 8 n c.
+Proof.
+  intros Hc. unfold json_below, json_expand, below_w, sub64, mul64.
+  rewrite lsb_mul_small by assumption. reflexivity.
+Qed.
+Lemma json_contains_eq n c : 0 <= c < 256 -> json_contains n c = contains_w 8 n c.
+Proof.
+  intros Hc. unfold json_contains, json_expand, contains_w, sub64, xor64, mul64.
+  rewrite lsb_mul_small by assumption. rewrite json_lsb_eq. reflexivity.
+Qed.
+
+Definition chunk_mask (n : Z) (html : bool) : Z :=
+  let mask := or64 (or64 (or64 n (json_below n 32)) (json_contains n 34)) (json_contains n 92) in
+  and64 (if html then or64 mask (or64 (or64 (json_contains n 60) (json_contains n 62)) (json_contains n 38)) else mask) json_msb.
+Lemma chunk_mask_eq n html : chunk_mask n html = escape_mask 8 n html.
+Proof.
+  unfold chunk_mask, escape_mask, and64, or64. cbv zeta.
+  rewrite !json_below_eq, !json_contains_eq, json_msb_eq by lia. reflexivity.
+Qed.
+
+Lemma len_chunks_fuel fuel s : (length s <= fuel)%nat ->
+  len (chunks64_fuel fuel s) = len s / 8.
+Proof.
+  revert s; induction fuel as [|f IH]; intros s H.
+  - destruct s; [reflexivity|cbn in H; lia].
+  - cbn [chunks64_fuel]. destruct (Z.leb_spec 8 (len s)) as [G|G].
+    + rewrite len_cons. unfold len in G. rewrite IH by (rewrite skipn_length; lia).
+      unfold len. rewrite skipn_length. zlia.
+    + rewrite len_nil. pose proof (len_nonneg s). zlia.
+Qed.
+
+Definition ei_tail (s : bytes) (escapeHTML : bool) : nat -> Z -> option Z :=
+  fix loop2_ (f3_ : nat) (i : Z) {struct f3_} : option Z :=
+    match f3_ with
+    | O => None
+    | S f4_ =>
+      if (i <? (len s)) then
+        (let c := at_ s i in
+        if (((((c <? 32) || (c >? 127)) || (c =? 34)) || (c =? 92)) || (escapeHTML && (((c =? 60) || (c =? 62)) || (c =? 38)))) then
+          (Some (i))
+        else
+          (let i := addi64 i 1 in
+        loop2_ f4_ i))
+      else Some (-1)
+    end.
+Definition ei_chunks (html : bool) (k5 : unit -> option Z) : list Z -> Z -> option Z :=
+  fix loop6_ (l7_ : list Z) (i8_ : Z) {struct l7_} : option Z :=
+    match l7_ with
+    | [] => k5 tt
+    | n :: t10_ =>
+      if negb (chunk_mask n html =? 0) then Some (divi64 (ctz64 (chunk_mask n html)) 8)
+      else loop6_ t10_ (i8_ + 1)
+    end.
+Lemma escapeIndex_eq fuel s html :
+  json_escapeIndex fuel s html =
+  ei_chunks html (fun _ => ei_tail s html fuel (muli64 (len (chunks64 s)) 8)) (chunks64 s) 0.
+Proof.
+  unfold json_escapeIndex. cbv zeta. remember (muli64 (len (chunks64 s)) 8) as i0 eqn:Ei0.
+  match goal with |- ?F ?l0 0 = _ =>
+    assert (G : forall l j, F l j = ei_chunks html (fun _ => ei_tail s html fuel i0) l j) end.
+  { induction l as [|n t IH]; intros j.
+    - reflexivity.
+    - unfold ei_chunks, chunk_mask in *. destruct html; lazy beta iota fix zeta; rewrite IH; reflexivity. }
+  apply G.
+Qed.
+
+Lemma needs_escape_unfold html c :
+  (((((c <? 32) || (c >? 127)) || (c =? 34)) || (c =? 92)) || (html && (((c =? 60) || (c =? 62)) || (c =? 38))))
+  = needs_escape_json html c.
+Proof. unfold needs_escape_json. rewrite Z.gtb_ltb. reflexivity. Qed.
+
+Lemma ei_tail_spec s html : len s < 2 ^ 62 -> forall rest i fuel, 0 <= i -> slice_from s i = rest ->
+  (length rest < fuel)%nat ->
+  ei_tail s html fuel i =
+    if (find_index (needs_escape_json html) rest <? length rest)%nat
+    then Some (i + Z.of_nat (find_index (needs_escape_json html) rest)) else Some (-1).
+Proof.
+  intros Hs. induction rest as [|c r IH]; intros i fuel Hi E Hf.
+  - destruct fuel as [|f]; [cbn in Hf; lia|]. cbn [ei_tail]. apply sf_nil in E; [|assumption].
+    destruct (Z.ltb_spec i (len s)); [lia|]. reflexivity.
+  - destruct fuel as [|f]; [cbn in Hf; lia|]. cbn [ei_tail]. apply sf_cons in E; [|assumption].
+    destruct E as (E1 & E2 & E3). destruct (Z.ltb_spec i (len s)); [|lia]. cbv zeta.
+    rewrite needs_escape_unfold, E2. cbn [find_index length].
+    destruct (needs_escape_json html c).
+    + cbn. f_equal. lia.
+    + rewrite addi64_small by lia. rewrite (IH (i + 1) f) by (cbn [length] in Hf; auto; lia).
+      change (S (find_index (needs_escape_json html) r) <? S (length r))%nat
+        with (find_index (needs_escape_json html) r <? length r)%nat.
+      destruct (find_index (needs_escape_json html) r <? length r)%nat; [f_equal; lia|reflexivity].
+Qed.
+
+Lemma firstn8_length (s : bytes) : 8 <= len s -> length (firstn 8 s) = 8%nat.
+Proof. unfold len. intros H. rewrite firstn_length. lia. Qed.
+
+Lemma ei_chunks_spec s html k5 : wfb s = true ->
+  forall fuel pre s' k i, s = pre ++ s' -> len pre = 8 * k -> 0 <= k ->
+    forallb (fun x => negb (needs_escape_json html x)) pre = true -> (length s' <= fuel)%nat ->
+    ei_chunks html k5 (chunks64_fuel fuel s') i =
+      if Z.of_nat (find_index (needs_escape_json html) s) <? 8 * (len s / 8)
+      then Some (Z.of_nat (find_index (needs_escape_json html) s) mod 8) else k5 tt.
+Proof.
+  intros Hw. induction fuel as [|f IH]; intros pre s' k i Es Hp Hk Hg Hf.
+  - destruct s'; [|cbn in Hf; lia]. cbn [chunks64_fuel ei_chunks].
+    rewrite app_nil_r in Es. subst pre. apply find_index_none in Hg. rewrite Hg.
+    fold (len s). destruct (Z.ltb_spec (len s) (8 * (len s / 8))); [zlia|reflexivity].
+  - cbn [chunks64_fuel]. destruct (Z.leb_spec 8 (len s')) as [G|G].
+    + cbn [ei_chunks]. rewrite chunk_mask_eq. unfold le64. rewrite le_load_firstn.
+      assert (Hw' : wfb s' = true) by (subst s; apply wfb_app in Hw; tauto).
+      assert (Hw8 : wfb (firstn 8 s') = true) by (apply wfb_firstn; assumption).
+      pose proof (firstn8_length s' G) as L8.
+      pose proof (escape_mask_zero_iff 8 (firstn 8 s') html Hw8 L8) as Z0.
+      destruct (Z.eqb_spec (escape_mask 8 (le_load 8 (firstn 8 s')) html) 0) as [E0|E0]; cbn [negb].
+      * apply Z0 in E0. rewrite (IH (pre ++ firstn 8 s') (skipn 8 s') (k + 1)).
+        -- reflexivity.
+        -- rewrite <- app_assoc, firstn_skipn. assumption.
+        -- rewrite len_app. unfold len at 2. rewrite L8. lia.
+        -- lia.
+        -- rewrite forallb_app, Hg. exact E0.
+        -- rewrite skipn_length. unfold len in G. lia.
+      * pose proof (escape_mask_index 8 (firstn 8 s') html 64 Hw8 L8 E0) as IX.
+        assert (NF : (find_index (needs_escape_json html) (firstn 8 s') < 8)%nat).
+        { pose proof (find_index_le (needs_escape_json html) (firstn 8 s')) as LE. rewrite L8 in LE.
+          destruct (Nat.eq_dec (find_index (needs_escape_json html) (firstn 8 s')) 8) as [E8|E8]; [|lia].
+          rewrite <- L8 in E8 at 2. apply find_index_none in E8. apply Z0 in E8. contradiction. }
+        assert (FS : find_index (needs_escape_json html) s
+                     = (length pre + find_index (needs_escape_json html) (firstn 8 s'))%nat).
+        { rewrite Es. rewrite find_index_app_none by assumption. f_equal.
+          rewrite <- (firstn_skipn 8 s') at 1. apply find_index_app_some. rewrite L8. assumption. }
+        change (LanesProofs.needs_escape html) with (needs_escape_json html) in IX.
+        unfold ctz64. rewrite divi64_8.
+        2:{ assert (0 <= ctz 64 (escape_mask 8 (le_load 8 (firstn 8 s')) html) / 8 < 8) by (rewrite IX; lia).
+            change (2 ^ 63) with 9223372036854775808. zlia. }
+        rewrite IX, FS.
+        assert (Ls : len s = 8 * k + len s') by (rewrite Es, len_app; lia).
+        unfold len in Hp. destruct (Z.ltb_spec (Z.of_nat (length pre + find_index (needs_escape_json html) (firstn 8 s')))
+                   (8 * (len s / 8))); [f_equal; zlia|zlia].
+    + cbn [ei_chunks].
+      assert (FS : find_index (needs_escape_json html) s
+                     = (length pre + find_index (needs_escape_json html) s')%nat).
+      { rewrite Es. apply find_index_app_none. assumption. }
+      assert (Ls : len s = 8 * k + len s') by (rewrite Es, len_app; lia).
+      pose proof (len_nonneg s'). unfold len in Hp. rewrite FS.
+      destruct (Z.ltb_spec (Z.of_nat (length pre + find_index (needs_escape_json html) s')) (8 * (len s / 8))); [zlia|reflexivity].
+Qed.
+
+Lemma find_index_ge_firstn p s n : (n <= find_index p s)%nat ->
+  forallb (fun x => negb (p x)) (firstn n s) = true.
+Proof.
+  revert n; induction s as [|c r IH]; intros n H.
+  - rewrite firstn_nil. reflexivity.
+  - destruct n as [|n]; [reflexivity|]. cbn [find_index] in H. cbn [firstn forallb].
+    destruct (p c); [lia|]. cbn [negb andb]. apply IH. lia.
+Qed.
+
+Lemma escape_index_exact : forall s html fuel, wfb s = true -> len s < 2 ^ 62 -> (length s + 2 <= fuel)%nat ->
+  exists r, json_escapeIndex fuel s html = Some r /\
+    let fi := first_index (needs_escape_json html) 0 s in
+    (fi = -1 -> r = -1) /\
+    (0 <= fi -> 0 <= r <= fi /\ r = if fi <? 8 * (len s / 8) then fi mod 8 else fi).
+Proof.
+  intros s html fuel Hw Hl Hf. rewrite escapeIndex_eq. unfold chunks64.
+  rewrite (ei_chunks_spec s html _ Hw (length s) [] s 0 0) by (auto; lia).
+  rewrite len_chunks_fuel by lia. cbv zeta. rewrite first_index_find.
+  set (p := needs_escape_json html). pose proof (find_index_le p s) as LE.
+  pose proof (len_nonneg s) as L0.
+  destruct (Z.ltb_spec (Z.of_nat (find_index p s)) (8 * (len s / 8))) as [A|A].
+  - eexists; split; [reflexivity|]. assert (find_index p s < length s)%nat by (unfold len in *; zlia).
+    destruct (Nat.ltb_spec (find_index p s) (length s)); [|lia]. split; [lia|]. intros _.
+    rewrite Z.add_0_l. destruct (Z.ltb_spec (Z.of_nat (find_index p s)) (8 * (len s / 8))); [|lia].
+    split; [zlia|reflexivity].
+  - unfold muli64. rewrite s64_small by (change (2 ^ 63) with 9223372036854775808; change (2 ^ 62) with 4611686018427387904 in Hl; zlia).
+    assert (Hn : (Z.to_nat (len s / 8 * 8) <= find_index p s)%nat) by zlia.
+    pose proof (find_index_ge_firstn p s _ Hn) as G.
+    rewrite (ei_tail_spec s html Hl (slice_from s (len s / 8 * 8)) (len s / 8 * 8) fuel); [|zlia|reflexivity|].
+    2:{ unfold slice_from. rewrite skipn_length. lia. }
+    assert (FS : find_index p s = (length (firstn (Z.to_nat (len s / 8 * 8)) s) + find_index p (slice_from s (len s / 8 * 8)))%nat).
+    { rewrite <- (firstn_skipn (Z.to_nat (len s / 8 * 8)) s) at 1. apply find_index_app_none. exact G. }
+    assert (LS : length s = (length (firstn (Z.to_nat (len s / 8 * 8)) s) + length (slice_from s (len s / 8 * 8)))%nat).
+    { rewrite <- (firstn_skipn (Z.to_nat (len s / 8 * 8)) s) at 1. apply app_length. }
+    assert (LF : length (firstn (Z.to_nat (len s / 8 * 8)) s) = Z.to_nat (len s / 8 * 8)).
+    { rewrite firstn_length. unfold len in *. zlia. }
+    fold p. destruct (Nat.ltb_spec (find_index p (slice_from s (len s / 8 * 8))) (length (slice_from s (len s / 8 * 8)))) as [B|B].
+    + eexists; split; [reflexivity|]. destruct (Nat.ltb_spec (find_index p s) (length s)); [|lia].
+      split; [lia|]. intros _. rewrite Z.add_0_l.
+      destruct (Z.ltb_spec (Z.of_nat (find_index p s)) (8 * (len s / 8))); [lia|]. split; zlia.
+    + eexists; split; [reflexivity|]. destruct (Nat.ltb_spec (find_index p s) (length s)); [lia|].
+      split; [reflexivity|lia].
+Qed.
+
+(* the statement of Spec.v holds for inputs of fewer than 16 bytes (a single 8-byte chunk) *)
+Lemma escape_index_spec_with_hyp : forall s html fuel, wfb s = true -> len s < 16 -> (length s + 2 <= fuel)%nat ->
+  json_escapeIndex fuel s html = Some (first_index (needs_escape_json html) 0 s).
+Proof.
+  intros s html fuel Hw Hl Hf.
+  destruct (escape_index_exact s html fuel Hw) as (r & E & H1 & H2); [lia|assumption|].
+  rewrite E. f_equal. cbv zeta in H1, H2. revert H1 H2. rewrite first_index_find.
+  pose proof (len_nonneg s).
+  destruct (find_index (needs_escape_json html) s <? length s)%nat; intros H1 H2; [|lia].
+  destruct H2 as [H2 H3]; [lia|]. rewrite H3.
+  destruct (Z.ltb_spec (0 + Z.of_nat (find_index (needs_escape_json html) s)) (8 * (len s / 8))); [zlia|reflexivity].
+Qed.
+
+(* ================= white space ================= *)
+Lemma is_ws_unfold c : ((c =? json_sp) || (c =? json_ht) || (c =? json_nl) || (c =? json_cr)) = is_ws c.
+Proof. reflexivity. Qed.
+Lemma is_ws_le c : is_ws c = true -> c <= 32.
+Proof. unfold is_ws. lia. Qed.
+
+Definition ssn_loop (b : bytes) : list Z -> Z -> bytes * Z :=
+  fix loop2_ (l3_ : list Z) (i4_ : Z) {struct l3_} : bytes * Z :=
+    match l3_ with
+    | [] => ([], 0)
+    | h5_ :: t6_ =>
+      if is_ws (at_ b i4_) then loop2_ t6_ (i4_ + 1) else (slice_from b i4_, i4_)
+    end.
+Lemma skipSpacesN_eq b : json_skipSpacesN b = ssn_loop b b 0.
+Proof. reflexivity. Qed.
+Lemma ssn_loop_spec b : forall rest i, 0 <= i -> slice_from b i = rest ->
+  fst (ssn_loop b rest i) = skip_ws rest.
+Proof.
+  induction rest as [|c r IH]; intros i Hi E; [reflexivity|].
+  cbn [ssn_loop skip_ws]. pose proof E as E'. apply sf_cons in E'; [|assumption].
+  destruct E' as (E1 & E2 & E3).
+  rewrite E2. destruct (is_ws c); [apply IH; [lia|assumption]|]. cbn [fst]. assumption.
+Qed.
+Lemma skipSpaces_spec b : json_skipSpaces b = skip_ws b.
+Proof.
+  unfold json_skipSpaces. cbv zeta.
+  destruct (((len b) >? 0) && ((at_ b 0) <=? 32)) eqn:C.
+  - rewrite skipSpacesN_eq. pose proof (ssn_loop_spec b b 0 ltac:(lia) eq_refl) as H.
+    destruct (ssn_loop b b 0) as [b' z]. exact H.
+  - destruct b as [|c r]; [reflexivity|]. rewrite at_0 in C. rewrite len_cons in C.
+    pose proof (len_nonneg r). cbn [skip_ws]. destruct (is_ws c) eqn:W; [|reflexivity].
+    apply is_ws_le in W. lia.
+Qed.
+
+Lemma skip_ws_suffix b : exists pre, b = pre ++ skip_ws b /\ forallb is_ws pre = true.
+Proof.
+  induction b as [|c r IH]; [exists []; auto|]. cbn [skip_ws]. destruct (is_ws c) eqn:W.
+  - destruct IH as (pre & H1 & H2). exists (c :: pre). cbn [app forallb]. rewrite <- H1, W, H2. auto.
+  - exists []. auto.
+Qed.
+Lemma skip_ws_length b : (length (skip_ws b) <= length b)%nat.
+Proof. destruct (skip_ws_suffix b) as (pre & H & _). rewrite H at 2. rewrite app_length. lia. Qed.
+Lemma skip_ws_head b c r : skip_ws b = c :: r -> is_ws c = false.
+Proof.
+  induction b as [|x b IH]; cbn [skip_ws]; [discriminate|]. destruct (is_ws x) eqn:W; [assumption|].
+  intros E. injection E as E1 E2. subst. assumption.
+Qed.
+Lemma skip_ws_idem b : skip_ws (skip_ws b) = skip_ws b.
+Proof.
+  destruct (skip_ws b) as [|c r] eqn:E; [reflexivity|]. apply skip_ws_head in E. cbn [skip_ws]. rewrite E. reflexivity.
+Qed.
+
+(* ================= matches on byte literals in the grammar, as boolean tests ================= *)
+(* Coq compiles [match c with 34 => .. | _ => ..] into a tree over the binary digits of c:
+   the equations below are proved by walking that tree (7 levels cover all constants < 128) *)
+Local Tactic Notation "zdeep" ident(c) :=
+  destruct c as [|c|c];
+  [ | do 7 (try (destruct c as [c|c|])) | ].
+
+Lemma g_string_eq c r : g_string (c :: r) =
+  if c =? 34 then Some r
+  else if c =? 92 then
+    match r with
+    | [] => None
+    | e :: r =>
+      if is_escape_letter e then g_string r
+      else if e =? 117 then
+        match r with
+        | h1 :: h2 :: h3 :: h4 :: r' => if is_hex h1 && is_hex h2 && is_hex h3 && is_hex h4 then g_string r' else None
+        | _ => None
+        end
+      else None
+    end
+  else if c <? 32 then None else g_string r.
+Proof. zdeep c; try reflexivity; destruct r; reflexivity. Qed.
+
+Lemma g_frac_eq b : g_frac b =
+  match b with
+  | [] => Some []
+  | c :: r => if c =? 46 then match r with [] => None | d :: r' => if is_digit d then Some (skip_digits r') else None end
+              else Some (c :: r)
+  end.
+Proof. destruct b as [|c r]; [reflexivity|]. zdeep c; try reflexivity; destruct r; reflexivity. Qed.
+
+Definition g_number_body (b : bytes) : option bytes :=
+  match b with
+  | [] => None
+  | c :: r => if c =? 48 then match g_frac r with Some r => g_exp r | None => None end
+              else if is_digit c then match g_frac (skip_digits r) with Some r => g_exp r | None => None end else None
+  end.
+Lemma g_number_eq b : g_number b =
+  g_number_body (match b with [] => b | c :: r => if c =? 45 then r else b end).
+Proof.
+  assert (B : forall b, match b with
+    | 48 :: r => match g_frac r with Some r => g_exp r | None => None end
+    | c :: r => if is_digit c then match g_frac (skip_digits r) with Some r => g_exp r | None => None end else None
+    | [] => None end = g_number_body b).
+  { clear. intros [|c r]; [reflexivity|]. zdeep c; reflexivity. }
+  unfold g_number. rewrite B. destruct b as [|c r]; [reflexivity|]. zdeep c; reflexivity.
+Qed.
+
+Fixpoint strip_prefix (p b : bytes) : option bytes :=
+  match p with
+  | [] => Some b
+  | x :: p' => match b with [] => None | y :: b' => if y =? x then strip_prefix p' b' else None end
+  end.
+Lemma strip_prefix_app p : forall b r, strip_prefix p b = Some r -> b = p ++ r.
+Proof.
+  induction p as [|x p IH]; intros b r H; cbn [strip_prefix] in H.
+  - injection H as H. subst. reflexivity.
+  - destruct b as [|y b]; [discriminate|]. destruct (Z.eqb_spec y x); [|discriminate]. subst y.
+    cbn [app]. f_equal. apply IH. assumption.
+Qed.
+Lemma has_prefix_strip p : forall b,
+  ((len b >=? len p) && bytes_eqb (slice_to b (len p)) p) = match strip_prefix p b with Some _ => true | None => false end.
+Proof.
+  induction p as [|x p IH]; intros b.
+  - cbn [strip_prefix]. rewrite len_nil. pose proof (len_nonneg b). unfold slice_to. cbn.
+    destruct (Z.geb_spec (len b) 0); [reflexivity|lia].
+  - cbn [strip_prefix]. destruct b as [|y b].
+    + rewrite len_nil, len_cons. pose proof (len_nonneg p). destruct (Z.geb_spec 0 (len p + 1)); [lia|reflexivity].
+    + rewrite !len_cons. unfold slice_to. replace (Z.to_nat (len p + 1)) with (S (Z.to_nat (len p))) by (pose proof (len_nonneg p); lia).
+      cbn [firstn bytes_eqb]. fold (slice_to b (len p)).
+      destruct (y =? x); [|apply andb_false_r]. rewrite <- IH. cbn [andb].
+      destruct (Z.geb_spec (len b + 1) (len p + 1)), (Z.geb_spec (len b) (len p)); try lia; reflexivity.
+Qed.
+
+Lemma g_value_nil f : g_value f [] = None.
+Proof. destruct f; reflexivity. Qed.
+Lemma g_value_null f r : g_value (S f) (110 :: r) = strip_prefix [117; 108; 108] r.
+Proof.
+  destruct r as [|c r]; [reflexivity|]. zdeep c; try reflexivity.
+  destruct r as [|c r]; [reflexivity|]. zdeep c; try reflexivity.
+  destruct r as [|c r]; [reflexivity|]. zdeep c; reflexivity.
+Qed.
+Lemma g_value_true f r : g_value (S f) (116 :: r) = strip_prefix [114; 117; 101] r.
+Proof.
+  destruct r as [|c r]; [reflexivity|]. zdeep c; try reflexivity.
+  destruct r as [|c r]; [reflexivity|]. zdeep c; try reflexivity.
+  destruct r as [|c r]; [reflexivity|]. zdeep c; reflexivity.
+Qed.
+Lemma g_value_false f r : g_value (S f) (102 :: r) = strip_prefix [97; 108; 115; 101] r.
+Proof.
+  destruct r as [|c r]; [reflexivity|]. zdeep c; try reflexivity.
+  destruct r as [|c r]; [reflexivity|]. zdeep c; try reflexivity.
+  destruct r as [|c r]; [reflexivity|]. zdeep c; try reflexivity.
+  destruct r as [|c r]; [reflexivity|]. zdeep c; reflexivity.
+Qed.
+Lemma g_value_string f r : g_value (S f) (34 :: r) = g_string r.
+Proof. reflexivity. Qed.
+
+Definition g_elems (f : nat) : nat -> bytes -> option bytes :=
+  fix elems (n : nat) (b : bytes) {struct n} : option bytes :=
+    match n with
+    | O => None
+    | S n' =>
+        match g_value f b with
+        | None => None
+        | Some r =>
+            match skip_ws r with
+            | 44 :: r' => elems n' (skip_ws r')
+            | 93 :: r' => Some r'
+            | _ => None
+            end
+        end
+    end.
+Definition g_after_elem (f n' : nat) (r : bytes) : option bytes :=
+  match skip_ws r with
+  | [] => None
+  | c :: r' => if c =? 44 then g_elems f n' (skip_ws r') else if c =? 93 then Some r' else None
+  end.
+Lemma g_elems_eq f n' b : g_elems f (S n') b =
+  match g_value f b with None => None | Some r => g_after_elem f n' r end.
+Proof.
+  cbn [g_elems]. destruct (g_value f b) as [r|]; [|reflexivity]. unfold g_after_elem.
+  destruct (skip_ws r) as [|c r']; [reflexivity|]. zdeep c; reflexivity.
+Qed.
+Lemma g_value_array f r : g_value (S f) (91 :: r) =
+  match skip_ws r with
+  | [] => g_elems f f []
+  | c :: r' => if c =? 93 then Some r' else g_elems f f (c :: r')
+  end.
+Proof.
+  change (g_value (S f) (91 :: r)) with
+    (match skip_ws r with 93 :: r' => Some r' | r1 => g_elems f f r1 end).
+  destruct (skip_ws r) as [|c r']; [reflexivity|]. zdeep c; reflexivity.
+Qed.
+
+Definition g_members (f : nat) : nat -> bytes -> option bytes :=
+  fix members (n : nat) (b : bytes) {struct n} : option bytes :=
+    match n with
+    | O => None
+    | S n' =>
+        match b with
+        | 34 :: k =>
+            match g_string k with
+            | None => None
+            | Some r =>
+                match skip_ws r with
+                | 58 :: r' =>
+                    match g_value f (skip_ws r') with
+                    | None => None
+                    | Some r =>
+                        match skip_ws r with
+                        | 44 :: r' => members n' (skip_ws r')
+                        | 125 :: r' => Some r'
+                        | _ => None
+                        end
+                    end
+                | _ => None
+                end
+            end
+        | _ => None
+        end
+    end.
+Definition g_str_tok (b : bytes) : option bytes :=
+  match b with [] => None | c :: k => if c =? 34 then g_string k else None end.
+Definition g_after_member (f n' : nat) (r : bytes) : option bytes :=
+  match skip_ws r with
+  | [] => None
+  | c :: r' => if c =? 44 then g_members f n' (skip_ws r') else if c =? 125 then Some r' else None
+  end.
+Definition g_after_key (f n' : nat) (r : bytes) : option bytes :=
+  match skip_ws r with
+  | [] => None
+  | c :: r' => if c =? 58 then
+                 match g_value f (skip_ws r') with None => None | Some r => g_after_member f n' r end
+               else None
+  end.
+Lemma g_members_eq f n' b : g_members f (S n') b =
+  match g_str_tok b with None => None | Some r => g_after_key f n' r end.
+Proof.
+  cbn [g_members]. unfold g_str_tok. destruct b as [|c k]; [reflexivity|].
+  assert (A : forall r, match skip_ws r with
+                        | 44 :: r' => g_members f n' (skip_ws r')
+                        | 125 :: r' => Some r'
+                        | _ => None
+                        end = g_after_member f n' r).
+  { intros r. unfold g_after_member. destruct (skip_ws r) as [|x r']; [reflexivity|]. zdeep x; reflexivity. }
+  assert (B : forall r, match skip_ws r with
+                | 58 :: r' =>
+                    match g_value f (skip_ws r') with
+                    | None => None
+                    | Some r => g_after_member f n' r
+                    end
+                | _ => None
+                end = g_after_key f n' r).
+  { intros r. unfold g_after_key. destruct (skip_ws r) as [|x r']; [reflexivity|]. zdeep x; reflexivity. }
+  zdeep c; try reflexivity. cbv beta iota delta [Z.eqb Pos.eqb].
+  destruct (g_string k) as [r|]; [|reflexivity]. rewrite <- B.
+  destruct (skip_ws r) as [|x r']; [reflexivity|]. zdeep x; try reflexivity.
+  destruct (g_value f (skip_ws r')) as [r2|]; [|reflexivity]. apply A.
+Qed.
+Lemma g_value_object f r : g_value (S f) (123 :: r) =
+  match skip_ws r with
+  | [] => g_members f f []
+  | c :: r' => if c =? 125 then Some r' else g_members f f (c :: r')
+  end.
+Proof.
+  change (g_value (S f) (123 :: r)) with
+    (match skip_ws r with 125 :: r' => Some r' | r1 => g_members f f r1 end).
+  destruct (skip_ws r) as [|c r']; [reflexivity|]. zdeep c; reflexivity.
+Qed.
+Lemma g_value_other f c r :
+  (c =? 123) || (c =? 91) || (c =? 34) || (c =? 110) || (c =? 116) || (c =? 102) = false ->
+  g_value (S f) (c :: r) = g_number (c :: r).
+Proof. zdeep c; try reflexivity; intros H; discriminate H. Qed.
+
+(* ================= parseNumber ================= *)
+Local Notation PR := (option (bytes * bytes * Z * option json_err)).
+
+Definition pn_loop3 (b v r : bytes) (kind exponentStart : Z) (k2_ : option json_err -> Z -> PR) : nat -> option json_err -> Z -> PR :=
+  fix loop3_ (f4_ : nat) (err : (option json_err)) (i : Z) {struct f4_} : PR :=
+    match f4_ with
+    | O => None
+    | S f5_ =>
+      if (i <? (len b)) then
+        (let c := at_ b i in
+      if ((48 >? c) || (c >? 57)) then
+        (if (i =? exponentStart) then
+          (let err := (Some JErrSyntax) in
+          Some ((v, r, kind, err)))
+        else
+          (k2_ err i))
+      else
+        (let i := addi64 i 1 in
+        loop3_ f5_ err i))
+      else k2_ err i
+    end.
+Definition pn_loop9 (b v : bytes) (kind decimalStart : Z) (k8_ : bytes -> option json_err -> Z -> PR) : nat -> bytes -> option json_err -> Z -> PR :=
+  fix loop9_ (f10_ : nat) (r : bytes) (err : (option json_err)) (i : Z) {struct f10_} : PR :=
+    match f10_ with
+    | O => None
+    | S f11_ =>
+      if (i <? (len b)) then
+        (let c_2 := at_ b i in
+      if ((48 >? c_2) || (c_2 >? 57)) then
+        (if (i =? decimalStart) then
+          (let '(r, err) := (slice_from b i, (Some JErrSyntax)) in
+          Some ((v, r, kind, err)))
+        else
+          (k8_ r err i))
+      else
+        (let i := addi64 i 1 in
+        loop9_ f11_ r err i))
+      else k8_ r err i
+    end.
+Definition pn_loop13 (b : bytes) (k12_ : Z -> PR) : nat -> Z -> PR :=
+  fix loop13_ (f14_ : nat) (i : Z) {struct f14_} : PR :=
+    match f14_ with
+    | O => None
+    | S f15_ =>
+      if (((i <? (len b)) && (48 <=? (at_ b i))) && ((at_ b i) <=? 57)) then
+        (let i := addi64 i 1 in
+      loop13_ f15_ i)
+      else k12_ i
+    end.
+Definition pn_k1 (b : bytes) (r : bytes) (kind : Z) (err : option json_err) (i : Z) : PR :=
+  let '(v, r) := (slice_to b i, slice_from b i) in Some ((v, r, kind, err)).
+Definition pn_k6 (b v r : bytes) (kind : Z) (err : option json_err) (fuel : nat) (i : Z) : PR :=
+  if (i =? (len b)) then
+    (let '(r, err) := (slice_from b i, (Some JErrSyntax)) in
+    Some ((v, r, kind, err)))
+  else
+    (let exponentStart := i in
+    pn_loop3 b v r kind exponentStart (fun (err : option json_err) (i : Z) => pn_k1 b r kind err i) fuel err i).
+Definition pn_k7 (b v : bytes) (fuel : nat) (r : bytes) (kind : Z) (err : option json_err) (i : Z) : PR :=
+  if ((i <? (len b)) && (((at_ b i) =? 101) || ((at_ b i) =? 69))) then
+    (let kind := json_Float in
+    let i := addi64 i 1 in
+    if (i <? (len b)) then
+      (let c_1 := at_ b i in
+      if ((c_1 =? 43) || (c_1 =? 45)) then
+        (let i := addi64 i 1 in
+        pn_k6 b v r kind err fuel i)
+      else
+        (pn_k6 b v r kind err fuel i))
+    else
+      (pn_k6 b v r kind err fuel i))
+  else
+    (pn_k1 b r kind err i).
+Definition pn_k12 (b v r : bytes) (err : option json_err) (fuel : nat) (kind : Z) (i : Z) : PR :=
+  if ((i <? (len b)) && ((at_ b i) =? 46)) then
+    (let kind := json_Float in
+    let i := addi64 i 1 in
+    let decimalStart := i in
+    let k8_ := fun (r : bytes) (err : (option json_err)) (i : Z) =>
+      if (i =? decimalStart) then
+        (let '(r, err) := (slice_from b i, (Some JErrSyntax)) in
+        Some ((v, r, kind, err)))
+      else
+        (pn_k7 b v fuel r kind err i) in
+    pn_loop9 b v kind decimalStart k8_ fuel r err i)
+  else
+    (pn_k7 b v fuel r kind err i).
+Definition pn_k16 (b : bytes) (fuel : nat) (kind : Z) (v r : bytes) (err : option json_err) (i : Z) : PR :=
+  pn_loop13 b (pn_k12 b v r err fuel kind) fuel i.
+Definition pn_k17 (b : bytes) (fuel : nat) (v r : bytes) (err : option json_err) (kind : Z) (i : Z) : PR :=
+  if (i =? (len b)) then
+    (let '(r, err) := (slice_from b i, (Some JErrSyntax)) in
+    Some ((v, r, kind, err)))
+  else
+    (if (((at_ b i) <? 48) || ((at_ b i) >? 57)) then
+      (let '(r, err) := (slice_from b i, (Some JErrSyntax)) in
+      Some ((v, r, kind, err)))
+    else
+      (if ((at_ b i) =? 48) then
+        (let i := addi64 i 1 in
+        if ((i =? (len b)) || (((negb ((at_ b i) =? 46)) && (negb ((at_ b i) =? 101))) && (negb ((at_ b i) =? 69)))) then
+          (let '(v, r) := (slice_to b i, slice_from b i) in
+          Some ((v, r, kind, err)))
+        else
+          (if ((48 <=? (at_ b i)) && ((at_ b i) <=? 57)) then
+            (let '(r, err) := (slice_from b i, (Some JErrSyntax)) in
+            Some ((v, r, kind, err)))
+          else
+            (pn_k16 b fuel kind v r err i)))
+      else
+        (pn_k16 b fuel kind v r err i))).
+Lemma parseNumber_eq fuel d b : json_decoder_parseNumber fuel d b =
+  if ((len b) =? 0) then Some (([], b, 0, Some JErrUnexpectedEOF))
+  else if ((at_ b 0) =? 45) then pn_k17 b fuel [] [] None json_Int (addi64 0 1)
+  else pn_k17 b fuel [] [] None json_Uint 0.
+Proof. reflexivity. Qed.
+
+Definition pn_scan (b : bytes) (start : Z) (E : Z -> PR) (k : Z -> PR) : nat -> Z -> PR :=
+  fix loop (f : nat) (i : Z) {struct f} : PR :=
+    match f with
+    | O => None
+    | S f' =>
+      if i <? len b then
+        if negb (is_digit (at_ b i)) then (if i =? start then E i else k i)
+        else loop f' (addi64 i 1)
+      else k i
+    end.
+Lemma nondigit_gtb c : ((48 >? c) || (c >? 57)) = negb (is_digit c).
+Proof.
+  unfold is_digit. rewrite !Z.gtb_ltb.
+  destruct (Z.ltb_spec c 48), (Z.ltb_spec 57 c), (Z.leb_spec 48 c), (Z.leb_spec c 57); try lia; reflexivity.
+Qed.
+Lemma nondigit_ltb c : ((c <? 48) || (c >? 57)) = negb (is_digit c).
+Proof.
+  unfold is_digit. rewrite !Z.gtb_ltb.
+  destruct (Z.ltb_spec c 48), (Z.ltb_spec 57 c), (Z.leb_spec 48 c), (Z.leb_spec c 57); try lia; reflexivity.
+Qed.
+Lemma pn_loop3_scan b v r kind start k2 fuel err : forall i,
+  pn_loop3 b v r kind start k2 fuel err i =
+  pn_scan b start (fun _ => Some (v, r, kind, Some JErrSyntax)) (k2 err) fuel i.
+Proof.
+  induction fuel as [|f IH]; intros i; [reflexivity|]. cbn [pn_loop3 pn_scan]. cbv zeta.
+  rewrite nondigit_gtb, IH. reflexivity.
+Qed.
+Lemma pn_loop9_scan b v kind start k8 fuel r err : forall i,
+  pn_loop9 b v kind start k8 fuel r err i =
+  pn_scan b start (fun i => Some (v, slice_from b i, kind, Some JErrSyntax)) (k8 r err) fuel i.
+Proof.
+  induction fuel as [|f IH]; intros i; [reflexivity|]. cbn [pn_loop9 pn_scan]. cbv zeta.
+  rewrite nondigit_gtb, IH. reflexivity.
+Qed.
+
+Lemma skip_digits_length r : (length (skip_digits r) <= length r)%nat.
+Proof. induction r as [|c r IH]; cbn [skip_digits length]; [lia|]. destruct (is_digit c); cbn [length]; lia. Qed.
+
+Lemma pn_scan_spec b start E k : len b < 2 ^ 62 ->
+  forall rest i fuel, 0 <= start <= i /\ i <= len b -> slice_from b i = rest -> (length rest < fuel)%nat ->
+    (i = start -> exists d r', rest = d :: r' /\ is_digit d = true) ->
+    exists j, i <= j <= len b /\ (i = start -> start < j) /\ slice_from b j = skip_digits rest /\
+      pn_scan b start E k fuel i = k j.
+Proof.
+  intros Hb. induction rest as [|c r IH]; intros i fuel Hi E0 Hf Hs.
+  - destruct fuel as [|f]; [cbn in Hf; lia|]. cbn [pn_scan]. pose proof (sf_nil' _ _ E0 ltac:(lia)).
+    destruct (Z.ltb_spec i (len b)); [lia|].
+    assert (i <> start) by (intros X; destruct (Hs X) as (d & r' & X1 & _); discriminate).
+    exists i. repeat split; try lia. assumption.
+  - destruct fuel as [|f]; [cbn in Hf; lia|]. cbn [pn_scan]. pose proof (sf_cons' _ _ _ _ E0 ltac:(lia)) as (E1 & E2 & E3).
+    destruct (Z.ltb_spec i (len b)); [|lia]. rewrite E2. cbn [skip_digits].
+    destruct (is_digit c) eqn:D; cbn [negb].
+    + rewrite addi64_small by lia.
+      destruct (IH (i + 1) f) as (j & J1 & J2 & J3 & J4); [lia|assumption|cbn [length] in Hf; lia|lia|].
+      exists j. repeat split; try lia; assumption.
+    + assert (i <> start).
+      { intros X; destruct (Hs X) as (d & r' & X1 & X2). injection X1 as X1 X3. subst d. congruence. }
+      destruct (Z.eqb_spec i start); [contradiction|]. exists i. repeat split; try lia. assumption.
+Qed.
+Lemma pn_scan_fail b start E k fuel rest : 0 <= start -> slice_from b start = rest ->
+  match rest with [] => True | d :: _ => is_digit d = false end ->
+  pn_scan b start E k (S fuel) start = match rest with [] => k start | _ => E start end.
+Proof.
+  intros Hs E0 Hd. cbn [pn_scan]. destruct rest as [|c r].
+  - pose proof (sf_nil _ _ Hs E0). destruct (Z.ltb_spec start (len b)); [lia|]. reflexivity.
+  - pose proof (sf_cons _ _ _ _ Hs E0) as (E1 & E2 & E3). destruct (Z.ltb_spec start (len b)); [|lia].
+    rewrite E2, Hd. cbn [negb]. rewrite Z.eqb_refl. reflexivity.
+Qed.
+
+Definition ok_at (b : bytes) (G : option bytes) (res : PR) : Prop :=
+  exists v r k e, res = Some (v, r, k, e) /\
+    (e = None -> G = Some r /\ exists j, 0 < j <= len b /\ v = slice_to b j /\ r = slice_from b j) /\
+    (e <> None -> G = None).
+Lemma ok_at_err b v r k e : ok_at b None (Some (v, r, k, Some e)).
+Proof. exists v, r, k, (Some e). split; [reflexivity|]. split; [discriminate|reflexivity]. Qed.
+Lemma ok_at_ok b i k : 0 < i <= len b -> ok_at b (Some (slice_from b i)) (Some (slice_to b i, slice_from b i, k, None)).
+Proof.
+  intros H. exists (slice_to b i), (slice_from b i), k, None. split; [reflexivity|]. split; [|congruence].
+  intros _. split; [reflexivity|]. exists i. auto.
+Qed.
+
+Definition g_digits1 (rest : bytes) : option bytes :=
+  match rest with d :: r' => if is_digit d then Some (skip_digits r') else None | [] => None end.
+
+Lemma sf_le (b : bytes) i rest : 0 <= i -> slice_from b i = rest -> rest <> [] -> i < len b.
+Proof.
+  intros Hi E N. destruct rest as [|c r]; [congruence|]. apply sf_cons in E; [tauto|assumption].
+Qed.
+
+Lemma pn_k6_spec b kind fuel i rest : len b < 2 ^ 62 -> (length b < fuel)%nat ->
+  0 < i <= len b -> slice_from b i = rest ->
+  ok_at b (g_digits1 rest) (pn_k6 b [] [] kind None fuel i).
+Proof.
+  intros Hb Hf Hi E. unfold pn_k6. destruct (Z.eqb_spec i (len b)) as [X|X].
+  - subst i. rewrite sf_all in E. subst rest. apply ok_at_err.
+  - cbv zeta. rewrite pn_loop3_scan.
+    assert (Lr : (length rest <= length b)%nat).
+    { subst rest. unfold slice_from. rewrite skipn_length. lia. }
+    destruct rest as [|c r].
+    { apply sf_nil in E; lia. }
+    cbn [g_digits1]. destruct (is_digit c) eqn:D.
+    + match goal with |- context [pn_scan b ?s ?EE ?kk fuel _] =>
+        destruct (pn_scan_spec b s EE kk Hb (c :: r) i fuel) as (j & J1 & J2 & J3 & J4) end;
+        [lia|assumption|lia|intros _; exists c, r; auto|].
+      rewrite J4. unfold pn_k1. cbn [skip_digits] in J3. rewrite D in J3. rewrite <- J3.
+      apply ok_at_ok. lia.
+    + destruct fuel as [|f]; [lia|].
+      rewrite (pn_scan_fail b i _ _ f (c :: r)); [|lia|assumption|assumption]. apply ok_at_err.
+Qed.
+
+Lemma pn_k7_spec b kind fuel i rest : len b < 2 ^ 62 -> (length b < fuel)%nat ->
+  0 < i <= len b -> slice_from b i = rest ->
+  ok_at b (g_exp rest) (pn_k7 b [] fuel [] kind None i).
+Proof.
+  intros Hb Hf Hi E. unfold pn_k7. destruct rest as [|e r].
+  - pose proof (sf_nil' _ _ E ltac:(lia)). destruct (Z.ltb_spec i (len b)); [lia|]. cbn [andb g_exp].
+    unfold pn_k1. rewrite <- E. apply ok_at_ok. lia.
+  - pose proof (sf_cons' _ _ _ _ E ltac:(lia)) as (E1 & E2 & E3).
+    destruct (Z.ltb_spec i (len b)); [|lia]. rewrite E2. cbn [andb g_exp].
+    destruct ((e =? 101) || (e =? 69)).
+    + cbv zeta. rewrite addi64_small by lia.
+      destruct r as [|s r'].
+      * pose proof (sf_nil' _ _ E3 ltac:(lia)). destruct (Z.ltb_spec (i + 1) (len b)); [lia|].
+        apply (pn_k6_spec b json_Float fuel (i + 1) []); auto; lia.
+      * pose proof (sf_cons' _ _ _ _ E3 ltac:(lia)) as (F1 & F2 & F3).
+        destruct (Z.ltb_spec (i + 1) (len b)); [|lia]. rewrite F2.
+        destruct ((s =? 43) || (s =? 45)).
+        -- rewrite addi64_small by lia. apply (pn_k6_spec b json_Float fuel (i + 1 + 1) r'); auto; lia.
+        -- apply (pn_k6_spec b json_Float fuel (i + 1) (s :: r')); auto; lia.
+    + unfold pn_k1. rewrite <- E. apply ok_at_ok. lia.
+Qed.
+
+Lemma pn_k12_spec b kind fuel i rest : len b < 2 ^ 62 -> (length b < fuel)%nat ->
+  0 < i <= len b -> slice_from b i = rest ->
+  ok_at b (match g_frac rest with Some r => g_exp r | None => None end) (pn_k12 b [] [] None fuel kind i).
+Proof.
+  intros Hb Hf Hi E. unfold pn_k12. rewrite g_frac_eq. destruct rest as [|c r].
+  - pose proof (sf_nil' _ _ E ltac:(lia)). destruct (Z.ltb_spec i (len b)); [lia|]. cbn [andb].
+    apply pn_k7_spec; auto.
+  - pose proof (sf_cons' _ _ _ _ E ltac:(lia)) as (E1 & E2 & E3).
+    destruct (Z.ltb_spec i (len b)); [|lia]. rewrite E2. cbn [andb].
+    destruct (c =? 46); [|apply pn_k7_spec; auto].
+    cbv zeta. rewrite addi64_small by lia. rewrite pn_loop9_scan.
+    assert (Lr : (length r <= length b)%nat).
+    { rewrite <- E3. unfold slice_from. rewrite skipn_length. lia. }
+    destruct r as [|d r'].
+    + destruct fuel as [|f]; [lia|]. rewrite (pn_scan_fail b (i + 1) _ _ f []); [|lia|assumption|exact I].
+      rewrite Z.eqb_refl. apply ok_at_err.
+    + destruct (is_digit d) eqn:D.
+      * match goal with |- context [pn_scan b ?s ?EE ?kk fuel _] =>
+          destruct (pn_scan_spec b s EE kk Hb (d :: r') (i + 1) fuel) as (j & J1 & J2 & J3 & J4) end;
+          [lia|assumption|lia|intros _; exists d, r'; auto|].
+        rewrite J4. destruct (Z.eqb_spec j (i + 1)); [lia|]. cbn [skip_digits] in J3. rewrite D in J3.
+        apply pn_k7_spec; auto. lia.
+      * destruct fuel as [|f]; [lia|]. rewrite (pn_scan_fail b (i + 1) _ _ f (d :: r')); [|lia|assumption|assumption].
+        apply ok_at_err.
+Qed.
+
+Lemma pn_loop13_spec b k12 : len b < 2 ^ 62 ->
+  forall rest i fuel, 0 <= i <= len b -> slice_from b i = rest -> (length rest < fuel)%nat ->
+    exists j, i <= j <= len b /\ (match rest with d :: _ => is_digit d = true | [] => False end -> i < j) /\
+      slice_from b j = skip_digits rest /\ pn_loop13 b k12 fuel i = k12 j.
+Proof.
+  intros Hb. induction rest as [|c r IH]; intros i fuel Hi E0 Hf.
+  - destruct fuel as [|f]; [cbn in Hf; lia|]. cbn [pn_loop13]. pose proof (sf_nil' _ _ E0 ltac:(lia)).
+    destruct (Z.ltb_spec i (len b)); [lia|]. cbn [andb].
+    exists i. repeat split; try lia; try tauto; try assumption.
+  - destruct fuel as [|f]; [cbn in Hf; lia|]. cbn [pn_loop13]. pose proof (sf_cons' _ _ _ _ E0 ltac:(lia)) as (E1 & E2 & E3).
+    destruct (Z.ltb_spec i (len b)); [|lia]. rewrite E2. cbn [andb skip_digits].
+    change ((48 <=? c) && (c <=? 57)) with (is_digit c).
+    destruct (is_digit c) eqn:D.
+    + cbv zeta. rewrite addi64_small by lia.
+      destruct (IH (i + 1) f) as (j & J1 & J2 & J3 & J4); [lia|assumption|cbn [length] in Hf; lia|].
+      exists j. repeat split; try lia; assumption.
+    + exists i. repeat split; try lia; try assumption; try (intros X; discriminate).
+Qed.
+
+Lemma pn_k16_spec b kind fuel i rest : len b < 2 ^ 62 -> (length b < fuel)%nat ->
+  0 <= i <= len b -> slice_from b i = rest ->
+  (0 < i \/ match rest with d :: _ => is_digit d = true | [] => False end) ->
+  ok_at b (match g_frac (skip_digits rest) with Some r => g_exp r | None => None end)
+    (pn_k16 b fuel kind [] [] None i).
+Proof.
+  intros Hb Hf Hi E Hd. unfold pn_k16.
+  assert (Lr : (length rest <= length b)%nat).
+  { subst rest. unfold slice_from. rewrite skipn_length. lia. }
+  destruct (pn_loop13_spec b (pn_k12 b [] [] None fuel kind) Hb rest i fuel) as (j & J1 & J2 & J3 & J4);
+    [lia|assumption|lia|].
+  rewrite J4. apply pn_k12_spec; auto. destruct Hd as [Hd|Hd]; [lia|]. apply J2 in Hd. lia.
+Qed.
+
+Lemma pn_k17_spec b kind fuel i rest : len b < 2 ^ 62 -> (length b < fuel)%nat ->
+  0 <= i <= len b -> slice_from b i = rest ->
+  ok_at b (g_number_body rest) (pn_k17 b fuel [] [] None kind i).
+Proof.
+  intros Hb Hf Hi E. unfold pn_k17. destruct rest as [|c r].
+  - pose proof (sf_nil' _ _ E ltac:(lia)). destruct (Z.eqb_spec i (len b)); [|lia]. apply ok_at_err.
+  - pose proof (sf_cons' _ _ _ _ E ltac:(lia)) as (E1 & E2 & E3).
+    destruct (Z.eqb_spec i (len b)); [lia|]. rewrite E2, nondigit_ltb. clear E2. cbn [g_number_body].
+    destruct (Z.eqb_spec c 48) as [C0|C0].
+    + subst c. cbn [is_digit negb]. change (negb (is_digit 48)) with false. cbv iota. cbv zeta.
+      rewrite addi64_small by lia. rewrite g_frac_eq.
+      destruct r as [|x r'].
+      * pose proof (sf_nil' _ _ E3 ltac:(lia)). destruct (Z.eqb_spec (i + 1) (len b)); [|lia]. cbn [orb].
+        change (g_exp []) with (Some (@nil Z)). rewrite <- E3. apply ok_at_ok. lia.
+      * pose proof (sf_cons' _ _ _ _ E3 ltac:(lia)) as (F1 & F2 & F3).
+        destruct (Z.eqb_spec (i + 1) (len b)); [lia|]. cbn [orb]. rewrite F2. clear F2.
+        destruct (Z.eqb_spec x 46) as [X1|X1].
+        -- subst x. cbn [negb andb]. change ((48 <=? 46) && (46 <=? 57)) with false. cbv iota.
+           pose proof (pn_k16_spec b kind fuel (i + 1) (46 :: r') Hb Hf ltac:(lia) E3 ltac:(lia)) as K.
+           cbn [skip_digits] in K. change (is_digit 46) with false in K. cbv iota in K.
+           rewrite g_frac_eq in K. exact K.
+        -- cbn [negb andb]. destruct (Z.eqb_spec x 101) as [X2|X2].
+           ++ subst x. cbn [negb andb]. change ((48 <=? 101) && (101 <=? 57)) with false. cbv iota.
+              pose proof (pn_k16_spec b kind fuel (i + 1) (101 :: r') Hb Hf ltac:(lia) E3 ltac:(lia)) as K.
+              cbn [skip_digits] in K. change (is_digit 101) with false in K. cbv iota in K.
+              rewrite g_frac_eq in K. exact K.
+           ++ cbn [negb andb]. destruct (Z.eqb_spec x 69) as [X3|X3].
+              ** subst x. cbn [negb]. change ((48 <=? 69) && (69 <=? 57)) with false. cbv iota.
+                 pose proof (pn_k16_spec b kind fuel (i + 1) (69 :: r') Hb Hf ltac:(lia) E3 ltac:(lia)) as K.
+                 cbn [skip_digits] in K. change (is_digit 69) with false in K. cbv iota in K.
+                 rewrite g_frac_eq in K. exact K.
+              ** cbn [negb].
+                 assert (GE : g_exp (x :: r') = Some (x :: r')).
+                 { unfold g_exp. destruct (Z.eqb_spec x 101); [lia|]. destruct (Z.eqb_spec x 69); [lia|]. reflexivity. }
+                 rewrite GE, <- E3. apply ok_at_ok. lia.
+    + destruct (is_digit c) eqn:D; cbn [negb].
+      * pose proof (pn_k16_spec b kind fuel i (c :: r) Hb Hf Hi E) as K.
+        cbn [skip_digits] in K. rewrite D in K. apply K. right. reflexivity.
+      * apply ok_at_err.
+Qed.
+
+Lemma parseNumber_spec fuel d b : len b < 2 ^ 62 -> (length b < fuel)%nat ->
+  ok_at b (g_number b) (json_decoder_parseNumber fuel d b).
+Proof.
+  intros Hb Hf. rewrite parseNumber_eq, g_number_eq. destruct b as [|c r].
+  - cbn. apply ok_at_err.
+  - rewrite len_cons, at_0. pose proof (len_nonneg r). destruct (Z.eqb_spec (len r + 1) 0); [lia|].
+    destruct (c =? 45).
+    + rewrite addi64_small by (cbn; lia). apply pn_k17_spec; auto. rewrite len_cons. lia.
+    + apply pn_k17_spec; auto. rewrite len_cons. lia.
+Qed.
+
+(* ================= parseUintHex / parseUnicode on four bytes ================= *)
+Definition hex_loop (b : bytes) : list Z -> Z -> Z -> Z -> Z * bytes * option json_err :=
+  fix loop2_ (l3_ : list Z) (i4_ : Z) (value : Z) (count : Z) {struct l3_} : (Z * bytes * (option json_err)) :=
+    match l3_ with
+    | [] => (value, slice_from b count, None)
+    | h5_ :: t6_ =>
+      let c := h5_ in
+      let i := i4_ in
+      let x : Z := 0 in
+      let k7_ := fun (x : Z) =>
+        if (value >? 1152921504606846975) then
+          ((0, b, (Some JErrSyntax)))
+        else
+          (let value := mul64 value 16 in
+          if (value >? (sub64 18446744073709551615 x)) then
+            ((0, b, (Some JErrSyntax)))
+          else
+            (let value := add64 value x in
+            let count := addi64 count 1 in
+            loop2_ t6_ (i4_ + 1) value count)) in
+      if ((c >=? 48) && (c <=? 57)) then
+        (let x := sub8 c 48 in
+        k7_ x)
+      else if ((c >=? 65) && (c <=? 70)) then
+        (let x := add64 (sub8 c 65) 10 in
+        k7_ x)
+      else if ((c >=? 97) && (c <=? 102)) then
+        (let x := add64 (sub8 c 97) 10 in
+        k7_ x)
+      else (if (i =? 0) then
+          ((0, b, (Some JErrSyntax)))
+        else
+          ((value, slice_from b count, None)))
+    end.
+Lemma parseUintHex_eq d b : json_decoder_parseUintHex d b =
+  if ((len b) =? 0) then (0, b, Some JErrSyntax) else hex_loop b b 0 0 0.
+Proof. reflexivity. Qed.
+
+Definition hexval (c : Z) : Z :=
+  if ((c >=? 48) && (c <=? 57)) then sub8 c 48
+  else if ((c >=? 65) && (c <=? 70)) then add64 (sub8 c 65) 10 else add64 (sub8 c 97) 10.
+Lemma is_hex_unfold c : is_hex c = ((c >=? 48) && (c <=? 57)) || ((c >=? 65) && (c <=? 70)) || ((c >=? 97) && (c <=? 102)).
+Proof. unfold is_hex, is_digit. rewrite !Z.geb_leb. reflexivity. Qed.
+Lemma hexval_bound c : is_hex c = true -> 0 <= hexval c <= 15.
+Proof.
+  rewrite is_hex_unfold. unfold hexval. rewrite !Z.geb_leb. unfold sub8, add64, w8, w64.
+  change (2 ^ 8) with 256. change (2 ^ 64) with 18446744073709551616.
+  destruct (Z.leb_spec 48 c), (Z.leb_spec c 57), (Z.leb_spec 65 c), (Z.leb_spec c 70),
+    (Z.leb_spec 97 c), (Z.leb_spec c 102); cbn [andb orb]; intros HH; try discriminate HH; zlia.
+Qed.
+Lemma hex_step b c t i value count : 0 <= value < 2 ^ 56 -> 0 <= count < 2 ^ 60 ->
+  hex_loop b (c :: t) i value count =
+    if is_hex c then hex_loop b t (i + 1) (value * 16 + hexval c) (count + 1)
+    else if i =? 0 then (0, b, Some JErrSyntax) else (value, slice_from b count, None).
+Proof.
+  intros Hv Hc. pose proof (hexval_bound c) as HB. rewrite is_hex_unfold in *. unfold hexval in HB.
+  cbn [hex_loop]. cbv zeta. unfold hexval.
+  assert (K : forall x, 0 <= x <= 15 ->
+    (if value >? 1152921504606846975 then (0, b, Some JErrSyntax)
+     else if mul64 value 16 >? sub64 18446744073709551615 x then (0, b, Some JErrSyntax)
+     else hex_loop b t (i + 1) (add64 (mul64 value 16) x) (addi64 count 1))
+    = hex_loop b t (i + 1) (value * 16 + x) (count + 1)).
+  { intros x Hx. change (2 ^ 56) with 72057594037927936 in Hv. change (2 ^ 60) with 1152921504606846976 in Hc.
+    rewrite !Z.gtb_ltb. destruct (Z.ltb_spec 1152921504606846975 value); [lia|].
+    unfold mul64, sub64, add64. rewrite !w64_small by (change (2 ^ 64) with 18446744073709551616; lia).
+    destruct (Z.ltb_spec (18446744073709551615 - x) (value * 16)); [lia|].
+    rewrite addi64_small by (change (2 ^ 63) with 9223372036854775808; lia). reflexivity. }
+  destruct ((c >=? 48) && (c <=? 57)); [apply K, HB; reflexivity|].
+  destruct ((c >=? 65) && (c <=? 70)); [apply K, HB; reflexivity|].
+  destruct ((c >=? 97) && (c <=? 102)); [apply K, HB; reflexivity|]. reflexivity.
+Qed.
+
+Definition hex4 (s : bytes) : bool :=
+  match s with
+  | h1 :: h2 :: h3 :: h4 :: _ => is_hex h1 && is_hex h2 && is_hex h3 && is_hex h4
+  | _ => false
+  end.
+Lemma parseUnicode_spec d s : exists u n e, json_decoder_parseUnicode d s = (u, n, e) /\
+  (hex4 s = true -> e = None /\ n = 4) /\ (hex4 s = false -> e <> None).
+Proof.
+  unfold json_decoder_parseUnicode.
+  destruct s as [|h1 [|h2 [|h3 [|h4 r]]]];
+    try (cbn; do 3 eexists; split; [reflexivity|]; split; [discriminate|intros _; discriminate]).
+  assert (L : (len (h1 :: h2 :: h3 :: h4 :: r) <? 4) = false).
+  { rewrite !len_cons. pose proof (len_nonneg r). lia. }
+  rewrite L. change (slice_to (h1 :: h2 :: h3 :: h4 :: r) 4) with [h1; h2; h3; h4].
+  rewrite parseUintHex_eq. change (len [h1; h2; h3; h4] =? 0) with false. cbv iota.
+  cbn [hex4].
+  rewrite hex_step by (cbn; lia). destruct (is_hex h1) eqn:X1.
+  2:{ cbn. do 3 eexists; split; [reflexivity|]; split; [discriminate|intros _; discriminate]. }
+  pose proof (hexval_bound h1 X1) as B1.
+  rewrite hex_step by (change (2 ^ 56) with 72057594037927936; change (2 ^ 60) with 1152921504606846976; lia).
+  destruct (is_hex h2) eqn:X2.
+  2:{ cbn. do 3 eexists; split; [reflexivity|]; split; [discriminate|intros _; discriminate]. }
+  pose proof (hexval_bound h2 X2) as B2.
+  rewrite hex_step by (change (2 ^ 56) with 72057594037927936; change (2 ^ 60) with 1152921504606846976; lia).
+  destruct (is_hex h3) eqn:X3.
+  2:{ cbn. do 3 eexists; split; [reflexivity|]; split; [discriminate|intros _; discriminate]. }
+  pose proof (hexval_bound h3 X3) as B3.
+  rewrite hex_step by (change (2 ^ 56) with 72057594037927936; change (2 ^ 60) with 1152921504606846976; lia).
+  destruct (is_hex h4) eqn:X4.
+  2:{ cbn. do 3 eexists; split; [reflexivity|]; split; [discriminate|intros _; discriminate]. }
+  cbn. do 3 eexists; split; [reflexivity|]. split; [auto|discriminate].
+Qed.
+
+(* ================= parseString: the byte-wise loop ================= *)
+Definition ps_loop (d : Z) (b : bytes) : nat -> Z -> PR :=
+  fix loop2_ (f3_ : nat) (i : Z) {struct f3_} : PR :=
+    match f3_ with
+    | O => None
+    | S f4_ =>
+      if (i <? (len b)) then
+        (let k5_ := fun (i : Z) =>
+        let i := addi64 i 1 in
+      loop2_ f4_ i in
+      let tag6_ := at_ b i in
+      if (tag6_ =? 92) then
+        (let i := addi64 i 1 in
+        if (i <? (len b)) then
+          (let tag7_ := at_ b i in
+          if ((tag7_ =? 34) || (tag7_ =? 92) || (tag7_ =? 47) || (tag7_ =? 110) || (tag7_ =? 114) || (tag7_ =? 116) || (tag7_ =? 102) || (tag7_ =? 98)) then
+            (k5_ i)
+          else if (tag7_ =? 117) then
+            (let '(_, n, err) := json_decoder_parseUnicode d (slice_from b (addi64 i 1)) in
+            if negb (isnil err) then
+              (Some (([], slice_from b (addi64 (addi64 i 1) n), json_Undefined, err)))
+            else
+              (let i := addi64 i n in
+              k5_ i))
+          else (Some (([], b, json_Undefined, (Some JErrSyntax)))))
+        else
+          (k5_ i))
+      else if (tag6_ =? 34) then
+        (Some ((slice_to b (addi64 i 1), slice_from b (addi64 i 1), json_String, None)))
+      else (if ((at_ b i) <? 32) then
+          (Some (([], b, json_Undefined, (Some JErrSyntax))))
+        else
+          (k5_ i)))
+      else Some (([], slice_from b (len b), json_Undefined, (Some JErrSyntax)))
+    end.
+
+Lemma escape_letter_eq e :
+  ((e =? 34) || (e =? 92) || (e =? 47) || (e =? 110) || (e =? 114) || (e =? 116) || (e =? 102) || (e =? 98)) = is_escape_letter e.
+Proof.
+  unfold is_escape_letter.
+  destruct (e =? 34), (e =? 92), (e =? 47), (e =? 110), (e =? 114), (e =? 116), (e =? 102), (e =? 98); reflexivity.
+Qed.
+Lemma g_string_u r : match r with
+        | h1 :: h2 :: h3 :: h4 :: r' => if is_hex h1 && is_hex h2 && is_hex h3 && is_hex h4 then g_string r' else None
+        | _ => None
+        end = if hex4 r then g_string (skipn 4 r) else None.
+Proof. destruct r as [|h1 [|h2 [|h3 [|h4 r]]]]; reflexivity. Qed.
+Lemma sf_skip (b : bytes) i k rest : 0 <= i -> 0 <= k -> slice_from b i = rest ->
+  slice_from b (i + k) = skipn (Z.to_nat k) rest.
+Proof.
+  intros Hi Hk E. subst rest. unfold slice_from. rewrite skipn_add. f_equal. lia.
+Qed.
+Lemma hex4_length s : hex4 s = true -> (4 <= length s)%nat.
+Proof. destruct s as [|h1 [|h2 [|h3 [|h4 r]]]]; cbn; try discriminate; lia. Qed.
+
+Lemma ps_loop_spec d b : len b < 2 ^ 62 ->
+  forall fuel i rest, 1 <= i <= len b -> slice_from b i = rest -> (length rest < fuel)%nat ->
+    ok_at b (g_string rest) (ps_loop d b fuel i).
+Proof.
+  intros Hb. induction fuel as [|f IH]; intros i rest Hi E Hf; [lia|].
+  cbn [ps_loop]. destruct rest as [|c r1].
+  - pose proof (sf_nil' _ _ E ltac:(lia)). destruct (Z.ltb_spec i (len b)); [lia|]. apply ok_at_err.
+  - pose proof (sf_cons' _ _ _ _ E ltac:(lia)) as (E1 & E2 & E3).
+    destruct (Z.ltb_spec i (len b)); [|lia]. cbv zeta. rewrite E2. clear E2. rewrite g_string_eq.
+    cbn [length] in Hf.
+    destruct (Z.eqb_spec c 92) as [C1|C1].
+    + subst c. change (92 =? 34) with false. cbv iota. rewrite addi64_small by lia.
+      destruct r1 as [|e r2].
+      * pose proof (sf_nil' _ _ E3 ltac:(lia)). destruct (Z.ltb_spec (i + 1) (len b)); [lia|].
+        rewrite addi64_small by lia. destruct f as [|f']; [cbn in Hf; lia|]. cbn [ps_loop].
+        destruct (Z.ltb_spec (i + 1 + 1) (len b)); [lia|]. apply ok_at_err.
+      * pose proof (sf_cons' _ _ _ _ E3 ltac:(lia)) as (F1 & F2 & F3).
+        destruct (Z.ltb_spec (i + 1) (len b)); [|lia]. rewrite F2. clear F2. rewrite escape_letter_eq.
+        cbn [length] in Hf.
+        destruct (is_escape_letter e).
+        -- rewrite addi64_small by lia. apply IH; [lia|assumption|lia].
+        -- destruct (e =? 117); [|apply ok_at_err].
+           rewrite addi64_small by lia. rewrite F3. rewrite g_string_u.
+           destruct (parseUnicode_spec d r2) as (u & n & er & PU & P1 & P2). rewrite PU.
+           destruct (hex4 r2) eqn:H4.
+           ++ destruct (P1 eq_refl) as [P3 P4]. subst er n. cbn [isnil negb].
+              pose proof (hex4_length r2 H4) as L4.
+              assert (L5 : len r2 = len b - (i + 1 + 1)).
+              { rewrite <- F3. apply sf_len. lia. }
+              unfold len in L5 at 1.
+              rewrite (addi64_small (i + 1) 4) by lia. rewrite addi64_small by lia.
+              apply IH; [lia| |rewrite skipn_length; lia].
+              replace (i + 1 + 4 + 1) with (i + 1 + 1 + 4) by lia. apply sf_skip; auto; lia.
+           ++ specialize (P2 eq_refl). destruct er as [er|]; [|congruence]. cbn [isnil negb]. apply ok_at_err.
+    + destruct (Z.eqb_spec c 34) as [C2|C2].
+      * rewrite addi64_small by lia. rewrite <- E3. apply ok_at_ok. lia.
+      * destruct (c <? 32); [apply ok_at_err|]. rewrite addi64_small by lia.
+        apply IH; [lia|assumption|lia].
+Qed.
+
+(* ================= parseString: locating the closing quote ================= *)
+Definition quote_mask (w : Z) : Z :=
+  let u := xor64 w 2459565876494606882 in
+  and64 (and64 (sub64 u 72340172838076673) (not64 u)) 9259542123273814144.
+Definition ps_k8 (fuel : nat) (d : Z) (b : bytes) (n_1 : Z) : PR :=
+  if (((json_ParseFlags_has (id d) json_noBackslash) || ((index_byte (slice b 1 n_1) 92) <? 0)) && ((json_ParseFlags_has (id d) json_validAsciiPrint) || (ascii_ValidPrint (slice b 1 n_1)))) then
+    (Some ((slice_to b n_1, slice_from b n_1, json_Unescaped, None)))
+  else ps_loop d b fuel 1.
+Definition ps_k9 (b : bytes) (k8 : Z -> PR) : PR :=
+  let n_1 := addi64 (index_byte (slice_from b 1) 34) 2 in
+  if (n_1 <=? 1) then
+    (Some (([], slice_from b (len b), json_Undefined, (Some JErrSyntax))))
+  else
+    (k8 n_1).
+Definition ps_find (b : bytes) (k8 : Z -> PR) : PR :=
+  if ((len b) >=? 9) then
+    (if negb (quote_mask (le64 (slice_from b 1)) =? 0) then
+      k8 (addi64 (divi64 (ctz64 (quote_mask (le64 (slice_from b 1)))) 8) 2)
+    else
+      (if ((len b) >=? 17) then
+        (if negb (quote_mask (le64 (slice_from b 9)) =? 0) then
+          k8 (addi64 (divi64 (ctz64 (quote_mask (le64 (slice_from b 9)))) 8) 10)
+        else ps_k9 b k8)
+      else ps_k9 b k8))
+  else ps_k9 b k8.
+Lemma parseString_eq fuel d b : json_decoder_parseString fuel d b =
+  if ((len b) <? 2) then
+    (Some (([], slice_from b (len b), json_Undefined, (Some JErrUnexpectedEOF))))
+  else
+    (if negb ((at_ b 0) =? 34) then
+      (Some (([], b, json_Undefined, (Some JErrSyntax))))
+    else ps_find b (ps_k8 fuel d b)).
+Proof. reflexivity. Qed.
+
+Lemma lxor34 x : 0 <= x < 256 -> 0 <= Z.lxor x 34 /\ (Z.lxor x 34 = 0 <-> x = 34).
+Proof.
+  intros Hx. split; [apply Z.lxor_nonneg; lia|]. split; [apply Z.lxor_eq|intros ->; reflexivity].
+Qed.
+Lemma quote_lanes_forall xs : wfb xs = true ->
+  forallb (fun b => 1 <=? b) (map (fun x => Z.lxor x 34) xs) = forallb (fun x => negb (eqc 34 x)) xs.
+Proof.
+  induction xs as [|x r IH]; intros H; [reflexivity|]. apply wfb_cons in H. destruct H as [Hx Hr].
+  cbn [map forallb]. rewrite IH by assumption. f_equal. unfold eqc. destruct (lxor34 x Hx) as [A B].
+  destruct (Z.eqb_spec x 34) as [E|E]; cbn [negb]; lia.
+Qed.
+Lemma quote_lanes_find xs : wfb xs = true ->
+  find_index (fun b => b <? 1) (map (fun x => Z.lxor x 34) xs) = find_index (eqc 34) xs.
+Proof.
+  induction xs as [|x r IH]; intros H; [reflexivity|]. apply wfb_cons in H. destruct H as [Hx Hr].
+  cbn [map find_index]. rewrite IH by assumption. unfold eqc. destruct (lxor34 x Hx) as [A B].
+  assert (X : (Z.lxor x 34 <? 1) = (x =? 34)) by (destruct (Z.eqb_spec x 34) as [E|E]; lia).
+  rewrite X. reflexivity.
+Qed.
+Lemma quote_mask_lanes xs : wfb xs = true -> length xs = 8%nat ->
+  quote_mask (le_load 8 xs) = hasless_mask 8 (le_load 8 (map (fun x => Z.lxor x 34) xs)) 1.
+Proof.
+  intros Hw L. unfold quote_mask, xor64.
+  change 2459565876494606882 with (le_load 8 (repeat 34 8)).
+  rewrite le_load_lxor by (auto; apply wfb_repeat; lia).
+  replace (repeat 34 8) with (repeat 34 (length xs)) by (rewrite L; reflexivity).
+  rewrite zipw_repeat. reflexivity.
+Qed.
+Lemma quote_mask_zero xs : wfb xs = true -> length xs = 8%nat ->
+  (quote_mask (le_load 8 xs) = 0 <-> find_index (eqc 34) xs = 8%nat).
+Proof.
+  intros Hw L. rewrite quote_mask_lanes by assumption.
+  rewrite hasless_zero_iff; [|apply wfb_map_lxor; [lia|assumption]|rewrite map_length; assumption|lia].
+  rewrite quote_lanes_forall by assumption. rewrite <- L. symmetry. apply find_index_none.
+Qed.
+Lemma quote_mask_index xs : wfb xs = true -> length xs = 8%nat -> quote_mask (le_load 8 xs) <> 0 ->
+  divi64 (ctz64 (quote_mask (le_load 8 xs))) 8 = Z.of_nat (find_index (eqc 34) xs) /\
+  (find_index (eqc 34) xs < 8)%nat.
+Proof.
+  intros Hw L NZ.
+  assert (LT : (find_index (eqc 34) xs < 8)%nat).
+  { pose proof (find_index_le (eqc 34) xs). rewrite L in *.
+    destruct (Nat.eq_dec (find_index (eqc 34) xs) 8) as [E|E]; [|lia].
+    apply quote_mask_zero in E; auto. contradiction. }
+  split; [|assumption]. rewrite quote_mask_lanes in * by assumption.
+  pose proof (hasless_index 8 (map (fun x => Z.lxor x 34) xs) 1 64) as IX.
+  rewrite quote_lanes_find in IX by assumption.
+  specialize (IX ltac:(apply wfb_map_lxor; [lia|assumption]) ltac:(rewrite map_length; assumption) ltac:(lia) NZ).
+  unfold ctz64. rewrite divi64_8; [assumption|].
+  change (2 ^ 63) with 9223372036854775808. zlia.
+Qed.
+
+Lemma length_firstn8 (s : bytes) : (8 <= length s)%nat -> length (firstn 8 s) = 8%nat.
+Proof. intros. rewrite firstn_length. lia. Qed.
+
+Lemma ps_find_spec b s k8 : b = 34 :: s -> wfb s = true -> len b < 2 ^ 62 ->
+  ps_find b k8 =
+    if (find_index (eqc 34) s <? length s)%nat then k8 (Z.of_nat (find_index (eqc 34) s) + 2)
+    else Some ([], slice_from b (len b), json_Undefined, Some JErrSyntax).
+Proof.
+  intros Eb Hw Hb. set (q := find_index (eqc 34) s).
+  assert (Lb : len b = len s + 1) by (subst b; apply len_cons).
+  assert (S1 : slice_from b 1 = s) by (subst b; reflexivity).
+  assert (K9 : ps_k9 b k8 = if (q <? length s)%nat then k8 (Z.of_nat q + 2)
+    else Some ([], slice_from b (len b), json_Undefined, Some JErrSyntax)).
+  { unfold ps_k9. cbv zeta. rewrite S1, index_byte_find. fold q.
+    pose proof (find_index_le (eqc 34) s). fold q in H. unfold len in *.
+    destruct (Nat.ltb_spec q (length s)).
+    - rewrite addi64_small by lia. destruct (Z.leb_spec (Z.of_nat q + 2) 1); [lia|reflexivity].
+    - rewrite addi64_small by lia. reflexivity. }
+  unfold ps_find. destruct (Z.geb_spec (len b) 9) as [G9|G9]; [|exact K9].
+  rewrite S1. unfold le64. rewrite le_load_firstn.
+  assert (L8 : (8 <= length s)%nat) by (unfold len in *; lia).
+  pose proof (length_firstn8 s L8) as LX.
+  pose proof (wfb_firstn 8 s Hw) as WX.
+  destruct (Z.eqb_spec (quote_mask (le_load 8 (firstn 8 s))) 0) as [Z1|Z1]; cbn [negb].
+  - apply quote_mask_zero in Z1; auto.
+    destruct (Z.geb_spec (len b) 17) as [G17|G17]; [|exact K9].
+    assert (S9 : slice_from b 9 = skipn 8 s) by (subst b; reflexivity).
+    rewrite S9. rewrite le_load_firstn.
+    assert (L16 : (8 <= length (skipn 8 s))%nat) by (rewrite skipn_length; unfold len in *; lia).
+    pose proof (length_firstn8 _ L16) as LY.
+    pose proof (wfb_firstn 8 _ (wfb_skipn 8 s Hw)) as WY.
+    destruct (Z.eqb_spec (quote_mask (le_load 8 (firstn 8 (skipn 8 s)))) 0) as [Z2|Z2]; cbn [negb]; [exact K9|].
+    destruct (quote_mask_index _ WY LY Z2) as [IX LT]. rewrite IX.
+    assert (Q : q = (8 + find_index (eqc 34) (firstn 8 (skipn 8 s)))%nat).
+    { unfold q. rewrite <- (firstn_skipn 8 s) at 1. rewrite find_index_app_none.
+      - rewrite LX. f_equal. rewrite <- (firstn_skipn 8 (skipn 8 s)) at 1. apply find_index_app_some. lia.
+      - apply find_index_none. rewrite LX. assumption. }
+    rewrite skipn_length in L16.
+    destruct (Nat.ltb_spec q (length s)); [|lia]. rewrite addi64_small by lia. f_equal. lia.
+  - destruct (quote_mask_index _ WX LX Z1) as [IX LT]. rewrite IX.
+    assert (Q : q = find_index (eqc 34) (firstn 8 s)).
+    { unfold q. rewrite <- (firstn_skipn 8 s) at 1. apply find_index_app_some. lia. }
+    destruct (Nat.ltb_spec q (length s)); [|lia]. rewrite addi64_small by lia. f_equal. lia.
+Qed.
+
+(* ================= parseString: the fast path ================= *)
+Lemma g_string_plain span rest :
+  forallb (fun c => negb (eqc 34 c)) span = true -> forallb (fun c => negb (eqc 92 c)) span = true ->
+  forallb (fun c => 32 <=? c) span = true -> g_string (span ++ 34 :: rest) = Some rest.
+Proof.
+  induction span as [|c r IH]; cbn [forallb app]; intros A B C.
+  - rewrite g_string_eq. reflexivity.
+  - apply andb_true_iff in A, B, C. destruct A as [A1 A2], B as [B1 B2], C as [C1 C2]. unfold eqc in *.
+    rewrite g_string_eq. destruct (c =? 34); [discriminate|]. destruct (c =? 92); [discriminate|].
+    destruct (Z.ltb_spec c 32); [lia|]. apply IH; assumption.
+Qed.
+Lemma forallb_skipn {A} (p : A -> bool) n l : forallb p l = true -> forallb p (skipn n l) = true.
+Proof. intros H. rewrite <- (firstn_skipn n l) in H. rewrite forallb_app in H. apply andb_true_iff in H. tauto. Qed.
+Lemma g_string_no_quote : forall n s, (length s <= n)%nat ->
+  forallb (fun c => negb (eqc 34 c)) s = true -> g_string s = None.
+Proof.
+  induction n as [|n IH]; intros s L H.
+  - destruct s; [reflexivity|cbn in L; lia].
+  - destruct s as [|c r]; [reflexivity|]. cbn [forallb length] in *. apply andb_true_iff in H. destruct H as [H1 H2].
+    unfold eqc in H1. rewrite g_string_eq. destruct (c =? 34); [discriminate|].
+    assert (X : g_string r = None) by (apply IH; [lia|assumption]).
+    destruct (c =? 92); [|destruct (c <? 32); [reflexivity|assumption]].
+    destruct r as [|e r']; [reflexivity|]. cbn [forallb length] in *. apply andb_true_iff in H2. destruct H2 as [H2 H3].
+    destruct (is_escape_letter e); [apply IH; [lia|assumption]|].
+    destruct (e =? 117); [|reflexivity]. rewrite g_string_u. destruct (hex4 r'); [|reflexivity].
+    apply IH; [rewrite skipn_length; lia|apply forallb_skipn; assumption].
+Qed.
+
+Lemma printable_prefix (P rest p t : bytes) x :
+  (P ++ [x]) ++ rest = p ++ t -> is_ws x = false ->
+  forallb (fun c => (32 <=? c) && (c <=? 126)) p = true -> forallb is_ws t = true ->
+  forallb (fun c => 32 <=? c) (P ++ [x]) = true.
+Proof.
+  intros E Wx Hp Ht.
+  assert (PP : forall l, forallb (fun c => (32 <=? c) && (c <=? 126)) l = true -> forallb (fun c => 32 <=? c) l = true).
+  { induction l as [|c l IH]; cbn [forallb]; [reflexivity|]. intros H. apply andb_true_iff in H. destruct H as [H1 H2].
+    rewrite IH by assumption. lia. }
+  apply app_eq_app in E. destruct E as (l & [[E1 E2]|[E1 E2]]).
+  - destruct l as [|y l] using rev_ind.
+    + rewrite app_nil_r in E1. rewrite E1. apply PP. assumption.
+    + clear IHl. rewrite app_assoc in E1. apply app_inj_tail in E1. destruct E1 as [_ E1]. subst y.
+      rewrite E2 in Ht. rewrite !forallb_app in Ht. cbn [forallb] in Ht. rewrite Wx in Ht.
+      destruct (forallb is_ws l); cbn in Ht; discriminate Ht.
+  - rewrite E1 in Hp. rewrite forallb_app in Hp. apply andb_true_iff in Hp. apply PP. tauto.
+Qed.
+
+Lemma has_id d f : json_ParseFlags_has (id d) f = json_ParseFlags_has d f.
+Proof. reflexivity. Qed.
+
+Lemma ps_k8_spec fuel d b s : b = 34 :: s -> wfb b = true -> len b < 2 ^ 62 -> flags_sound d b ->
+  (length b <= fuel)%nat -> (find_index (eqc 34) s < length s)%nat ->
+  ok_at b (g_string s) (ps_k8 fuel d b (Z.of_nat (find_index (eqc 34) s) + 2)).
+Proof.
+  intros Eb Hw Hb [FS1 FS2] Hf Hq.
+  destruct (find_index_split (eqc 34) s Hq) as (c & rest & Es & Pc & Hspan).
+  set (span := firstn (find_index (eqc 34) s) s) in *.
+  assert (Lspan : length span = find_index (eqc 34) s).
+  { unfold span. rewrite firstn_length. lia. }
+  unfold eqc in Pc. apply Z.eqb_eq in Pc. subst c.
+  assert (Eb2 : b = ((34 :: span) ++ [34]) ++ rest).
+  { rewrite Eb, Es at 1. cbn [app]. rewrite <- app_assoc. reflexivity. }
+  assert (En : Z.of_nat (find_index (eqc 34) s) + 2 = len ((34 :: span) ++ [34])).
+  { rewrite len_app, len_cons. unfold len. cbn [length]. lia. }
+  assert (S1 : slice b 1 (Z.of_nat (find_index (eqc 34) s) + 2) = span ++ [34]).
+  { unfold slice. replace (Z.to_nat (Z.of_nat (find_index (eqc 34) s) + 2 - 1)) with (length span + 1)%nat by lia.
+    rewrite Eb. change (skipn (Z.to_nat 1) (34 :: s)) with s. rewrite Es. rewrite firstn_app.
+    rewrite firstn_all2 by lia. replace (length span + 1 - length span)%nat with 1%nat by lia. reflexivity. }
+  unfold ps_k8. rewrite S1, !has_id.
+  match goal with |- context [if ?c then _ else _] => destruct c eqn:C end.
+  - apply andb_true_iff in C. destruct C as [C1 C2].
+    assert (A : forallb (fun c => negb (eqc 92 c)) span = true).
+    { apply orb_true_iff in C1. destruct C1 as [C1|C1].
+      - specialize (FS1 C1). rewrite Eb2 in FS1. cbn [app forallb] in FS1. rewrite !forallb_app in FS1.
+        apply andb_true_iff in FS1. destruct FS1 as [_ FS1]. apply andb_true_iff in FS1. destruct FS1 as [FS1 _].
+        apply andb_true_iff in FS1. destruct FS1 as [FS1 _]. exact FS1.
+      - rewrite index_byte_find in C1. pose proof (find_index_le (eqc 92) (span ++ [34])) as LE.
+        destruct (Nat.ltb_spec (find_index (eqc 92) (span ++ [34])) (length (span ++ [34]))) as [X|X]; [lia|].
+        assert (Y : find_index (eqc 92) (span ++ [34]) = length (span ++ [34])) by lia.
+        apply find_index_none in Y. rewrite forallb_app in Y. apply andb_true_iff in Y. tauto. }
+    assert (B : forallb (fun c => 32 <=? c) span = true).
+    { apply orb_true_iff in C2. destruct C2 as [C2|C2].
+      - destruct (FS2 C2) as (p & t & E1 & E2 & E3). rewrite Eb2 in E1.
+        pose proof (printable_prefix (34 :: span) rest p t 34 E1 eq_refl E2 E3) as PP.
+        cbn [app forallb] in PP. rewrite forallb_app in PP. apply andb_true_iff in PP. destruct PP as [_ PP].
+        apply andb_true_iff in PP. tauto.
+      - assert (W : wfb (span ++ [34]) = true).
+        { rewrite Eb2 in Hw. cbn [app] in Hw. apply wfb_cons in Hw. destruct Hw as [_ Hw].
+          apply wfb_app in Hw. tauto. }
+        assert (LL : len (span ++ [34]) < 2 ^ 63).
+        { rewrite En in *. rewrite Eb2 in Hb. rewrite !len_app, !len_cons in *. pose proof (len_nonneg rest).
+          change (2 ^ 62) with 4611686018427387904 in Hb. change (2 ^ 63) with 9223372036854775808. lia. }
+        destruct (valid_print_spec (span ++ [34]) W LL) as [_ VP]. rewrite VP in C2.
+        rewrite forallb_app in C2. apply andb_true_iff in C2. destruct C2 as [C2 _].
+        clear - C2. induction span as [|x l IH]; [reflexivity|]. cbn [forallb] in *.
+        apply andb_true_iff in C2. destruct C2 as [D1 D2]. rewrite IH by assumption. unfold is_print in D1. lia. }
+    rewrite Es at 1. rewrite (g_string_plain span rest Hspan A B).
+    rewrite En, Eb2. rewrite sf_app, st_app.
+    exists ((34 :: span) ++ [34]), rest, json_Unescaped, None. split; [reflexivity|]. split; [|congruence].
+    intros _. split; [reflexivity|]. exists (len ((34 :: span) ++ [34])). rewrite sf_app, st_app.
+    rewrite !len_app, !len_cons. change (len (@nil Z)) with 0. pose proof (len_nonneg span). pose proof (len_nonneg rest).
+    repeat split; lia.
+  - apply ps_loop_spec; auto.
+    + rewrite Eb, len_cons. pose proof (len_nonneg s). lia.
+    + rewrite Eb. reflexivity.
+    + rewrite Eb in Hf. cbn [length] in Hf. lia.
+Qed.
+
+Lemma parseString_spec fuel d b : wfb b = true -> len b < 2 ^ 62 -> flags_sound d b ->
+  (length b <= fuel)%nat -> ok_at b (g_str_tok b) (json_decoder_parseString fuel d b).
+Proof.
+  intros Hw Hb FS Hf. rewrite parseString_eq. unfold g_str_tok.
+  destruct b as [|c s].
+  - cbn. apply ok_at_err.
+  - rewrite len_cons, at_0. destruct s as [|c2 s'].
+    + cbn [len length Z.of_nat Z.add Z.ltb Z.compare]. cbv iota.
+      rewrite g_string_eq || idtac. destruct (c =? 34); apply ok_at_err.
+    + destruct (Z.ltb_spec (len (c2 :: s') + 1) 2) as [X|X].
+      { rewrite len_cons in X. pose proof (len_nonneg s'). lia. }
+      destruct (Z.eqb_spec c 34) as [C|C]; cbn [negb]; [|apply ok_at_err]. subst c.
+      assert (Hw' : wfb (c2 :: s') = true) by (apply wfb_cons in Hw; tauto).
+      rewrite (ps_find_spec _ (c2 :: s') _ eq_refl Hw' Hb).
+      destruct (Nat.ltb_spec (find_index (eqc 34) (c2 :: s')) (length (c2 :: s'))) as [Q|Q].
+      * apply ps_k8_spec; auto.
+      * pose proof (find_index_le (eqc 34) (c2 :: s')).
+        assert (Y : find_index (eqc 34) (c2 :: s') = length (c2 :: s')) by lia.
+        apply find_index_none in Y. rewrite (g_string_no_quote _ _ (le_n _) Y). apply ok_at_err.
+Qed.
+
+(* ================= suffix bookkeeping ================= *)
+Lemma sf_sf (a : bytes) p j : 0 <= p -> 0 <= j -> slice_from (slice_from a p) j = slice_from a (p + j).
+Proof. intros Hp Hj. unfold slice_from. rewrite skipn_add. f_equal. lia. Qed.
+Lemma sf_len' (a : bytes) p s : 0 <= p <= len a -> slice_from a p = s -> len s = len a - p.
+Proof. intros H E. subst s. apply sf_len. assumption. Qed.
+Lemma skip_ws_sf (a : bytes) p s : 0 <= p <= len a -> slice_from a p = s ->
+  exists p', p <= p' <= len a /\ slice_from a p' = skip_ws s.
+Proof.
+  intros Hp E. destruct (skip_ws_suffix s) as (pre & E1 & _).
+  pose proof (sf_len' a p s Hp E) as L. exists (p + len pre).
+  assert (L2 : len s = len pre + len (skip_ws s)) by (rewrite E1 at 1; apply len_app).
+  pose proof (len_nonneg pre). pose proof (len_nonneg (skip_ws s)).
+  split; [lia|]. rewrite <- sf_sf by lia. rewrite E. rewrite E1 at 1. apply sf_app.
+Qed.
+Lemma flags_sound_suffix d pre s : flags_sound d (pre ++ s) -> flags_sound d s.
+Proof.
+  intros [F1 F2]. split.
+  - intros H. specialize (F1 H). rewrite forallb_app in F1. apply andb_true_iff in F1. tauto.
+  - intros H. destruct (F2 H) as (p & t & E & Hp & Ht). apply app_eq_app in E.
+    destruct E as (l & [[E1 E2]|[E1 E2]]).
+    + exists [], s. rewrite E2 in Ht. rewrite forallb_app in Ht. apply andb_true_iff in Ht.
+      split; [reflexivity|]. split; [reflexivity|tauto].
+    + exists l, t. rewrite E1 in Hp. rewrite forallb_app in Hp. apply andb_true_iff in Hp.
+      split; [assumption|]. split; tauto.
+Qed.
+Lemma flags_sound_sf d a p : flags_sound d a -> flags_sound d (slice_from a p).
+Proof. intros H. rewrite <- (st_sf a p) in H. apply flags_sound_suffix in H. assumption. Qed.
+
+Lemma ok_at_sf a j r k : 0 < j <= len a -> slice_from a j = r ->
+  ok_at a (Some r) (Some (slice_to a j, slice_from a j, k, None)).
+Proof. intros H E. rewrite <- E. apply ok_at_ok. assumption. Qed.
+
+Lemma dlet_step (res : PR) (K : bytes -> option json_err -> PR) b2 G a (H : bytes -> option bytes) :
+  ok_at b2 G res ->
+  (forall r j, G = Some r -> 0 < j <= len b2 -> r = slice_from b2 j -> ok_at a (H r) (K r None)) ->
+  ok_at a (match G with None => None | Some r => H r end)
+    (dlet (_, b, _, err) <- res in
+     if negb (isnil err) then Some ([], b, json_Undefined, err) else K b err).
+Proof.
+  intros (v & r & k & e & E & Hok & Herr) HK. subst res. cbn [obind]. destruct e as [e|].
+  - cbn [isnil negb]. rewrite Herr by discriminate. apply ok_at_err.
+  - cbn [isnil negb]. destruct (Hok eq_refl) as (E1 & j & J1 & J2 & J3). rewrite E1. apply (HK r j); auto.
+Qed.
+
+Lemma g_number_bad c r : (c =? 45) = false -> is_digit c = false -> g_number (c :: r) = None.
+Proof.
+  intros H1 H2. rewrite g_number_eq, H1. cbn [g_number_body]. rewrite H2.
+  destruct (Z.eqb_spec c 48) as [E|E]; [subst c; discriminate H2|reflexivity].
+Qed.
+Lemma g_value_bad f c r : (c =? 93) || (c =? 125) || (c =? 44) || (c =? 58) = true -> g_value f (c :: r) = None.
+Proof.
+  intros H. destruct f as [|f]; [reflexivity|]. rewrite g_value_other by lia.
+  apply g_number_bad; [lia|]. unfold is_digit. lia.
+Qed.
+
+(* ================= parseArray ================= *)
+Definition arr_loop (fuel' : nat) (d : Z) (a : bytes) (n : Z) : nat -> bytes -> option json_err -> Z -> PR :=
+  fix loop2_ (f3_ : nat) (b : bytes) (err : (option json_err)) (i : Z) {struct f3_} : PR :=
+    match f3_ with
+    | O => None
+    | S f4_ =>
+      if true then
+        (let b := json_skipSpaces b in
+      if ((len b) =? 0) then
+        (Some (([], b, json_Undefined, (Some JErrSyntax))))
+      else
+        (if ((at_ b 0) =? 93) then
+          (let j := addi64 (subi64 n (len b)) 1 in
+          Some ((slice_to a j, slice_from a j, json_Array, None)))
+        else
+          (let k5_ := fun (b : bytes) =>
+            dlet (_, b, _, err) <- json_decoder_parseValue fuel' d b in
+            if negb (isnil err) then
+              (Some (([], b, json_Undefined, err)))
+            else
+              (let i := addi64 i 1 in
+              loop2_ f4_ b err i) in
+          if negb (i =? 0) then
+            (if ((len b) =? 0) then
+              (Some (([], b, json_Undefined, (Some JErrSyntax))))
+            else
+              (if negb ((at_ b 0) =? 44) then
+                (Some (([], b, json_Undefined, (Some JErrSyntax))))
+              else
+                (let b := json_skipSpaces (slice_from b 1) in
+                if ((len b) =? 0) then
+                  (Some (([], b, json_Undefined, (Some JErrUnexpectedEOF))))
+                else
+                  (if ((at_ b 0) =? 93) then
+                    (Some (([], b, json_Undefined, (Some JErrSyntax))))
+                  else
+                    (k5_ b)))))
+          else
+            (k5_ b))))
+      else None
+    end.
+Lemma parseArray_eq fuel' d b : json_decoder_parseArray (S fuel') d b =
+  if ((len b) <? 2) then
+    (Some (([], slice_from b (len b), json_Undefined, (Some JErrUnexpectedEOF))))
+  else
+    (if negb ((at_ b 0) =? 91) then
+      (Some (([], b, json_Undefined, (Some JErrSyntax))))
+    else arr_loop fuel' d b (len b) fuel' (slice_from b 1) None 0).
+Proof. reflexivity. Qed.
+
+(* ================= parseObject ================= *)
+Definition obj_loop (fuel' : nat) (d : Z) (a : bytes) (n : Z) : nat -> bytes -> option json_err -> Z -> PR :=
+  fix loop2_ (f3_ : nat) (b : bytes) (err : (option json_err)) (i : Z) {struct f3_} : PR :=
+    match f3_ with
+    | O => None
+    | S f4_ =>
+      if true then
+        (let b := json_skipSpaces b in
+      if ((len b) =? 0) then
+        (Some (([], b, json_Undefined, (Some JErrSyntax))))
+      else
+        (if ((at_ b 0) =? 125) then
+          (let j := addi64 (subi64 n (len b)) 1 in
+          Some ((slice_to a j, slice_from a j, json_Object, None)))
+        else
+          (let k5_ := fun (b : bytes) =>
+            dlet (_, b, _, err) <- json_decoder_parseString fuel' d b in
+            if negb (isnil err) then
+              (Some (([], b, json_Undefined, err)))
+            else
+              (let b := json_skipSpaces b in
+              if ((len b) =? 0) then
+                (Some (([], b, json_Undefined, (Some JErrSyntax))))
+              else
+                (if negb ((at_ b 0) =? 58) then
+                  (Some (([], b, json_Undefined, (Some JErrSyntax))))
+                else
+                  (let b := json_skipSpaces (slice_from b 1) in
+                  dlet (_, b, _, err) <- json_decoder_parseValue fuel' d b in
+                  if negb (isnil err) then
+                    (Some (([], b, json_Undefined, err)))
+                  else
+                    (let i := addi64 i 1 in
+                    loop2_ f4_ b err i)))) in
+          if negb (i =? 0) then
+            (if ((len b) =? 0) then
+              (Some (([], b, json_Undefined, (Some JErrSyntax))))
+            else
+              (if negb ((at_ b 0) =? 44) then
+                (Some (([], b, json_Undefined, (Some JErrSyntax))))
+              else
+                (let b := json_skipSpaces (slice_from b 1) in
+                if ((len b) =? 0) then
+                  (Some (([], b, json_Undefined, (Some JErrUnexpectedEOF))))
+                else
+                  (if ((at_ b 0) =? 125) then
+                    (Some (([], b, json_Undefined, (Some JErrSyntax))))
+                  else
+                    (k5_ b)))))
+          else
+            (k5_ b))))
+      else None
+    end.
+Lemma parseObject_eq fuel' d b : json_decoder_parseObject (S fuel') d b =
+  if ((len b) <? 2) then
+    (Some (([], slice_from b (len b), json_Undefined, (Some JErrUnexpectedEOF))))
+  else
+    (if negb ((at_ b 0) =? 123) then
+      (Some (([], b, json_Undefined, (Some JErrSyntax))))
+    else obj_loop fuel' d b (len b) fuel' (slice_from b 1) None 0).
+Proof. reflexivity. Qed.
+Lemma parseValue_eq fuel' d b : json_decoder_parseValue (S fuel') d b =
+  if ((len b) =? 0) then
+    (Some (([], b, json_Undefined, (Some JErrSyntax))))
+  else
+    (let tag2_ := at_ b 0 in
+    if (tag2_ =? 123) then
+      (dlet (v, b, k, err) <- json_decoder_parseObject fuel' d b in Some (v, b, k, err))
+    else if (tag2_ =? 91) then
+      (dlet (v, b, k, err) <- json_decoder_parseArray fuel' d b in Some (v, b, k, err))
+    else if (tag2_ =? 34) then
+      (dlet (v, b, k, err) <- json_decoder_parseString fuel' d b in Some (v, b, k, err))
+    else if (tag2_ =? 110) then
+      (let '(v, b, k, err) := json_decoder_parseNull d b in Some (v, b, k, err))
+    else if (tag2_ =? 116) then
+      (let '(v, b, k, err) := json_decoder_parseTrue d b in Some (v, b, k, err))
+    else if (tag2_ =? 102) then
+      (let '(v, b, k, err) := json_decoder_parseFalse d b in Some (v, b, k, err))
+    else if ((tag2_ =? 45) || (tag2_ =? 48) || (tag2_ =? 49) || (tag2_ =? 50) || (tag2_ =? 51) || (tag2_ =? 52) || (tag2_ =? 53) || (tag2_ =? 54) || (tag2_ =? 55) || (tag2_ =? 56) || (tag2_ =? 57)) then
+      (dlet (v, b, k, err) <- json_decoder_parseNumber fuel' d b in Some (v, b, k, err))
+    else Some (([], b, 0, Some JErrSyntax))).
+Proof. reflexivity. Qed.
+Lemma dlet_id (X : PR) : (dlet (v, b, k, err) <- X in Some (v, b, k, err)) = X.
+Proof. destruct X as [[[[v r] k] e]|]; reflexivity. Qed.
+
+Definition pv_ok (fuel : nat) (d : Z) : Prop :=
+  forall b gf, wfb b = true -> len b < 2 ^ 62 -> flags_sound d b ->
+    (2 * length b + 4 <= fuel)%nat -> (length b < gf)%nat ->
+    ok_at b (g_value gf b) (json_decoder_parseValue fuel d b).
+
+Lemma len_cons_nz {A} (c : A) r : (len (c :: r) =? 0) = false.
+Proof. rewrite len_cons. pose proof (len_nonneg r). lia. Qed.
+
+Section Containers.
+  Variables (fuel' : nat) (d : Z) (a : bytes) (f : nat).
+  Hypothesis Hwa : wfb a = true.
+  Hypothesis Hla : len a < 2 ^ 62.
+  Hypothesis Hfa : flags_sound d a.
+  Hypothesis IHv : pv_ok fuel' d.
+  Hypothesis Hfuel : (2 * length a + 2 <= fuel')%nat.
+  Hypothesis Hf : (length a <= f)%nat.
+
+  Lemma value_at p b2 : 1 <= p <= len a -> slice_from a p = b2 -> (length b2 < f)%nat ->
+    ok_at b2 (g_value f b2) (json_decoder_parseValue fuel' d b2).
+  Proof.
+    intros Hp E L. pose proof (sf_len' a p b2 ltac:(lia) E) as LL. unfold len in LL.
+    apply IHv; auto.
+    - rewrite <- E. apply wfb_sf. assumption.
+    - unfold len in *. lia.
+    - rewrite <- E. apply flags_sound_sf. assumption.
+    - lia.
+  Qed.
+
+  Lemma arr_loop_spec : forall g s p i n', 1 <= p <= len a -> slice_from a p = s -> 0 < i ->
+    i + len s <= len a -> (length s < g)%nat -> (length s <= n')%nat ->
+    ok_at a (g_after_elem f n' s) (arr_loop fuel' d a (len a) g s None i).
+  Proof.
+    induction g as [|g IH]; intros s p i n' Hp Es Hi Hil Hg Hn; [lia|].
+    cbn [arr_loop]. rewrite !skipSpaces_spec. unfold g_after_elem.
+    destruct (skip_ws_sf a p s ltac:(lia) Es) as (p1 & Hp1 & E1).
+    pose proof (sf_len' a p s ltac:(lia) Es) as Ls.
+    pose proof (sf_len' a p1 _ ltac:(lia) E1) as Ls1.
+    destruct (skip_ws s) as [|c r1] eqn:Ews.
+    - cbn. apply ok_at_err.
+    - rewrite len_cons_nz, at_0. rewrite len_cons in Ls1. pose proof (len_nonneg r1).
+      pose proof (sf_cons' _ _ _ _ E1 ltac:(lia)) as (_ & _ & E2).
+      destruct (Z.eqb_spec c 93) as [C93|C93].
+      + subst c. change (93 =? 44) with false. cbv iota. rewrite len_cons.
+        rewrite subi64_small by lia. rewrite addi64_small by lia.
+        replace (len a - (len r1 + 1) + 1) with (p1 + 1) by lia. apply ok_at_sf; [lia|assumption].
+      + destruct (Z.eqb_spec i 0); [lia|]. cbn [negb].
+        destruct (Z.eqb_spec c 44) as [C44|C44]; cbn [negb]; [|apply ok_at_err].
+        rewrite sf_1.
+        destruct (skip_ws_sf a (p1 + 1) r1 ltac:(lia) E2) as (p2 & Hp2 & E3).
+        pose proof (sf_len' a p2 _ ltac:(lia) E3) as Ls2.
+        destruct n' as [|n'']; [unfold len in *; lia|].
+        rewrite g_elems_eq.
+        destruct (skip_ws r1) as [|c2 r2] eqn:Ews2.
+        * cbn. rewrite g_value_nil. apply ok_at_err.
+        * rewrite len_cons_nz, at_0. rewrite len_cons in Ls2. pose proof (len_nonneg r2).
+          destruct (Z.eqb_spec c2 93) as [D93|D93].
+          { rewrite g_value_bad by lia. apply ok_at_err. }
+          apply (dlet_step _ (fun b err => arr_loop fuel' d a (len a) g b err (addi64 i 1))
+                   (c2 :: r2) (g_value f (c2 :: r2)) a (g_after_elem f n'')).
+          -- apply (value_at p2); [lia|assumption|]. cbn [length]. unfold len in *. lia.
+          -- intros r j Gr Hj Er. rewrite addi64_small by lia.
+             assert (E4 : slice_from a (p2 + j) = r).
+             { rewrite Er, <- E3. symmetry. apply sf_sf; lia. }
+             rewrite len_cons in Hj.
+             pose proof (sf_len' a (p2 + j) r ltac:(lia) E4) as Lr.
+             apply (IH r (p2 + j)); auto; unfold len in *; lia.
+  Qed.
+
+  Lemma string_at p b2 : 1 <= p <= len a -> slice_from a p = b2 ->
+    ok_at b2 (g_str_tok b2) (json_decoder_parseString fuel' d b2).
+  Proof.
+    intros Hp E. pose proof (sf_len' a p b2 ltac:(lia) E) as LL. unfold len in LL.
+    apply parseString_spec.
+    - rewrite <- E. apply wfb_sf. assumption.
+    - unfold len in *. lia.
+    - rewrite <- E. apply flags_sound_sf. assumption.
+    - lia.
+  Qed.
+
+  Lemma parseArray_spec s0 : a = 91 :: s0 ->
+    ok_at a (g_value (S f) a) (json_decoder_parseArray (S fuel') d a).
+  Proof.
+    intros Ea. rewrite parseArray_eq.
+    replace (g_value (S f) a) with (g_value (S f) (91 :: s0)) by (rewrite <- Ea; reflexivity).
+    rewrite g_value_array.
+    assert (La : len a = len s0 + 1) by (rewrite Ea; apply len_cons). pose proof (len_nonneg s0) as L0.
+    assert (E0 : slice_from a 1 = s0) by (rewrite Ea; reflexivity).
+    assert (At : at_ a 0 = 91) by (rewrite Ea; reflexivity).
+    destruct fuel' as [|g] eqn:Efuel; [lia|]. rewrite <- Efuel in *.
+    destruct f as [|f'] eqn:Ef; [unfold len in *; lia|]. rewrite <- Ef in *.
+    destruct (Z.ltb_spec (len a) 2) as [L2|L2].
+    { assert (S0 : s0 = []) by (apply len_0_nil; lia). rewrite S0. cbn [skip_ws]. rewrite Ef, g_elems_eq, g_value_nil.
+      apply ok_at_err. }
+    rewrite At. cbn [negb Z.eqb Pos.eqb]. rewrite E0. rewrite Efuel at 2.
+    cbn [arr_loop]. rewrite !skipSpaces_spec.
+    destruct (skip_ws_sf a 1 s0 ltac:(lia) E0) as (p1 & Hp1 & E1).
+    pose proof (sf_len' a p1 _ ltac:(lia) E1) as Ls1.
+    destruct (skip_ws s0) as [|c r1] eqn:Ews.
+    - rewrite Ef, g_elems_eq, g_value_nil. cbn. apply ok_at_err.
+    - rewrite len_cons_nz, at_0. rewrite len_cons in Ls1. pose proof (len_nonneg r1).
+      pose proof (sf_cons' _ _ _ _ E1 ltac:(lia)) as (_ & _ & E2).
+      destruct (Z.eqb_spec c 93) as [C93|C93].
+      + rewrite len_cons. rewrite subi64_small by lia. rewrite addi64_small by lia.
+        replace (len a - (len r1 + 1) + 1) with (p1 + 1) by lia. apply ok_at_sf; [lia|assumption].
+      + change (negb (0 =? 0)) with false. cbv iota. rewrite Ef at 2. rewrite g_elems_eq.
+        apply (dlet_step _ (fun b err => arr_loop fuel' d a (len a) g b err (addi64 0 1))
+                 (c :: r1) (g_value f (c :: r1)) a (g_after_elem f f')).
+        * apply (value_at p1); [lia|assumption|]. cbn [length]. unfold len in *. lia.
+        * intros r j Gr Hj Er. change (addi64 0 1) with 1.
+          assert (E4 : slice_from a (p1 + j) = r).
+          { rewrite Er, <- E1. symmetry. apply sf_sf; lia. }
+          rewrite len_cons in Hj.
+          pose proof (sf_len' a (p1 + j) r ltac:(lia) E4) as Lr.
+          apply (arr_loop_spec g r (p1 + j)); auto; unfold len in *; lia.
+  Qed.
+
+  Definition obj_k5 (g : nat) (i : Z) (b : bytes) : PR :=
+    dlet (_, b, _, err) <- json_decoder_parseString fuel' d b in
+    if negb (isnil err) then
+      (Some (([], b, json_Undefined, err)))
+    else
+      (let b := json_skipSpaces b in
+      if ((len b) =? 0) then
+        (Some (([], b, json_Undefined, (Some JErrSyntax))))
+      else
+        (if negb ((at_ b 0) =? 58) then
+          (Some (([], b, json_Undefined, (Some JErrSyntax))))
+        else
+          (let b := json_skipSpaces (slice_from b 1) in
+          dlet (_, b, _, err) <- json_decoder_parseValue fuel' d b in
+          if negb (isnil err) then
+            (Some (([], b, json_Undefined, err)))
+          else
+            (let i := addi64 i 1 in
+            obj_loop fuel' d a (len a) g b err i)))).
+
+  Lemma obj_k5_spec g :
+    (forall s p i n', 1 <= p <= len a -> slice_from a p = s -> 0 < i ->
+      i + len s <= len a -> (length s < g)%nat -> (length s <= n')%nat ->
+      ok_at a (g_after_member f n' s) (obj_loop fuel' d a (len a) g s None i)) ->
+    forall b2 p2 i n'', 1 <= p2 <= len a -> slice_from a p2 = b2 -> 0 <= i -> i + len b2 <= len a ->
+      (length b2 <= g)%nat -> (length b2 <= S n'')%nat ->
+      ok_at a (match g_str_tok b2 with None => None | Some r => g_after_key f n'' r end) (obj_k5 g i b2).
+  Proof.
+    intros LoopH b2 p2 i n'' Hp2 E3 Hi Hil Hg Hn. unfold obj_k5.
+    pose proof (sf_len' a p2 _ ltac:(lia) E3) as Ls2.
+    destruct (string_at p2 b2 ltac:(lia) E3) as (v & b3 & k & e & Eres & Hok & Herr).
+    rewrite Eres. unfold obind at 1. cbv beta iota. destruct e as [e|]; cbn [isnil negb].
+    { rewrite Herr by discriminate. apply ok_at_err. }
+    destruct (Hok eq_refl) as (G3 & j3 & J1 & J2 & J3). rewrite G3. clear Hok Herr Eres.
+    cbv zeta. rewrite !skipSpaces_spec.
+    assert (E4 : slice_from a (p2 + j3) = b3).
+    { rewrite J3, <- E3. symmetry. apply sf_sf; lia. }
+    pose proof (sf_len' a (p2 + j3) b3 ltac:(lia) E4) as L3.
+    unfold g_after_key.
+    destruct (skip_ws_sf a (p2 + j3) b3 ltac:(lia) E4) as (p4 & Hp4 & E5).
+    pose proof (sf_len' a p4 _ ltac:(lia) E5) as L4.
+    destruct (skip_ws b3) as [|c4 r4] eqn:Ews4.
+    { cbn. apply ok_at_err. }
+    rewrite len_cons_nz, at_0. rewrite len_cons in L4. pose proof (len_nonneg r4).
+    pose proof (sf_cons' _ _ _ _ E5 ltac:(lia)) as (_ & _ & E6).
+    destruct (Z.eqb_spec c4 58) as [C58|C58]; cbn [negb]; [|apply ok_at_err].
+    rewrite sf_1.
+    destruct (skip_ws_sf a (p4 + 1) r4 ltac:(lia) E6) as (p5 & Hp5 & E7).
+    pose proof (sf_len' a p5 _ ltac:(lia) E7) as L5.
+    apply (dlet_step _ (fun b err => obj_loop fuel' d a (len a) g b err (addi64 i 1))
+             (skip_ws r4) (g_value f (skip_ws r4)) a (g_after_member f n'')).
+    - apply (value_at p5); [lia|assumption|]. unfold len in *. lia.
+    - intros r j Gr Hj Er. rewrite addi64_small by lia.
+      assert (E8 : slice_from a (p5 + j) = r).
+      { rewrite Er, <- E7. symmetry. apply sf_sf; lia. }
+      pose proof (sf_len' a (p5 + j) r ltac:(lia) E8) as Lr.
+      apply (LoopH r (p5 + j)); auto; unfold len in *; lia.
+  Qed.
+
+  Lemma obj_loop_spec : forall g s p i n', 1 <= p <= len a -> slice_from a p = s -> 0 < i ->
+    i + len s <= len a -> (length s < g)%nat -> (length s <= n')%nat ->
+    ok_at a (g_after_member f n' s) (obj_loop fuel' d a (len a) g s None i).
+  Proof.
+    induction g as [|g IH]; intros s p i n' Hp Es Hi Hil Hg Hn; [lia|].
+    cbn [obj_loop]. rewrite !skipSpaces_spec. unfold g_after_member.
+    destruct (skip_ws_sf a p s ltac:(lia) Es) as (p1 & Hp1 & E1).
+    pose proof (sf_len' a p s ltac:(lia) Es) as Ls.
+    pose proof (sf_len' a p1 _ ltac:(lia) E1) as Ls1.
+    destruct (skip_ws s) as [|c r1] eqn:Ews.
+    - cbn. apply ok_at_err.
+    - rewrite len_cons_nz, at_0. rewrite len_cons in Ls1. pose proof (len_nonneg r1).
+      pose proof (sf_cons' _ _ _ _ E1 ltac:(lia)) as (_ & _ & E2).
+      destruct (Z.eqb_spec c 125) as [C125|C125].
+      + subst c. change (125 =? 44) with false. cbv iota. rewrite len_cons.
+        rewrite subi64_small by lia. rewrite addi64_small by lia.
+        replace (len a - (len r1 + 1) + 1) with (p1 + 1) by lia. apply ok_at_sf; [lia|assumption].
+      + destruct (Z.eqb_spec i 0); [lia|]. cbn [negb].
+        destruct (Z.eqb_spec c 44) as [C44|C44]; cbn [negb]; [|apply ok_at_err].
+        rewrite sf_1.
+        destruct (skip_ws_sf a (p1 + 1) r1 ltac:(lia) E2) as (p2 & Hp2 & E3).
+        pose proof (sf_len' a p2 _ ltac:(lia) E3) as Ls2.
+        destruct n' as [|n'']; [unfold len in *; lia|].
+        rewrite g_members_eq.
+        destruct (skip_ws r1) as [|c2 r2] eqn:Ews2.
+        * cbn. apply ok_at_err.
+        * rewrite len_cons_nz, at_0. pose proof (len_nonneg r2).
+          destruct (Z.eqb_spec c2 125) as [D125|D125].
+          { subst c2. cbn. apply ok_at_err. }
+          apply (obj_k5_spec g IH (c2 :: r2) p2 i n''); auto; unfold len in *; lia.
+  Qed.
+
+  Lemma parseObject_spec s0 : a = 123 :: s0 ->
+    ok_at a (g_value (S f) a) (json_decoder_parseObject (S fuel') d a).
+  Proof.
+    intros Ea. rewrite parseObject_eq.
+    replace (g_value (S f) a) with (g_value (S f) (123 :: s0)) by (rewrite <- Ea; reflexivity).
+    rewrite g_value_object.
+    assert (La : len a = len s0 + 1) by (rewrite Ea; apply len_cons). pose proof (len_nonneg s0) as L0.
+    assert (E0 : slice_from a 1 = s0) by (rewrite Ea; reflexivity).
+    assert (At : at_ a 0 = 123) by (rewrite Ea; reflexivity).
+    destruct fuel' as [|g] eqn:Efuel; [lia|]. rewrite <- Efuel in *.
+    destruct f as [|f'] eqn:Ef; [unfold len in *; lia|]. rewrite <- Ef in *.
+    destruct (Z.ltb_spec (len a) 2) as [L2|L2].
+    { assert (S0 : s0 = []) by (apply len_0_nil; lia). rewrite S0. cbn [skip_ws]. rewrite Ef, g_members_eq.
+      cbn. apply ok_at_err. }
+    rewrite At. cbn [negb Z.eqb Pos.eqb]. rewrite E0. rewrite Efuel at 2.
+    cbn [obj_loop]. rewrite !skipSpaces_spec.
+    destruct (skip_ws_sf a 1 s0 ltac:(lia) E0) as (p1 & Hp1 & E1).
+    pose proof (sf_len' a p1 _ ltac:(lia) E1) as Ls1.
+    destruct (skip_ws s0) as [|c r1] eqn:Ews.
+    - rewrite Ef, g_members_eq. cbn. apply ok_at_err.
+    - rewrite len_cons_nz, at_0. pose proof Ls1 as Ls1'. rewrite len_cons in Ls1'. pose proof (len_nonneg r1).
+      pose proof (sf_cons' _ _ _ _ E1 ltac:(lia)) as (_ & _ & E2).
+      destruct (Z.eqb_spec c 125) as [C125|C125].
+      + rewrite len_cons. rewrite subi64_small by lia. rewrite addi64_small by lia.
+        replace (len a - (len r1 + 1) + 1) with (p1 + 1) by lia. apply ok_at_sf; [lia|assumption].
+      + change (negb (0 =? 0)) with false. cbv iota. rewrite Ef at 2. rewrite g_members_eq.
+        apply (obj_k5_spec g (obj_loop_spec g) (c :: r1) p1 0 f'); auto; unfold len in *; lia.
+  Qed.
+End Containers.
+
+(* ================= literals ================= *)
+Lemma lit_spec (p b : bytes) (k : Z) : p <> [] ->
+  ok_at b (strip_prefix p b)
+    (Some (if ((len b >=? len p) && bytes_eqb (slice_to b (len p)) p)
+           then (slice_to b (len p), slice_from b (len p), k, None)
+           else if len b <? len p then ([], slice_from b (len b), json_Undefined, Some JErrUnexpectedEOF)
+           else ([], b, json_Undefined, Some JErrSyntax))).
+Proof.
+  intros Hp. rewrite has_prefix_strip. destruct (strip_prefix p b) as [r|] eqn:E.
+  - apply strip_prefix_app in E. subst b. rewrite sf_app, st_app.
+    exists p, r, k, None. split; [reflexivity|]. split; [|congruence]. intros _. split; [reflexivity|].
+    exists (len p). rewrite sf_app, st_app, len_app. pose proof (len_nonneg r).
+    assert (0 < len p) by (destruct p; [congruence|rewrite len_cons; pose proof (len_nonneg p); lia]).
+    repeat split; lia.
+  - destruct (len b <? len p); apply ok_at_err.
+Qed.
+
+(* ================= parseValue ================= *)
+Lemma pv_all d : forall fuel, pv_ok fuel d.
+Proof.
+  induction fuel as [fuel IHf] using lt_wf_ind. intros b gf Hw Hl Hfs Hfuel Hgf.
+  destruct fuel as [|f1]; [lia|]. rewrite parseValue_eq.
+  destruct b as [|c r]; [cbn; rewrite g_value_nil; apply ok_at_err|].
+  rewrite len_cons_nz, at_0. cbv zeta.
+  destruct gf as [|f]; [lia|].
+  destruct f1 as [|f2]; [cbn [length] in Hfuel; lia|].
+  destruct (Z.eqb_spec c 123) as [C1|C1].
+  { subst c. rewrite dlet_id.
+    apply (parseObject_spec f2 d (123 :: r) f Hw Hl Hfs (IHf f2 ltac:(lia)) ltac:(lia) ltac:(lia) r eq_refl). }
+  destruct (Z.eqb_spec c 91) as [C2|C2].
+  { subst c. rewrite dlet_id.
+    apply (parseArray_spec f2 d (91 :: r) f Hw Hl Hfs (IHf f2 ltac:(lia)) ltac:(lia) ltac:(lia) r eq_refl). }
+  destruct (Z.eqb_spec c 34) as [C3|C3].
+  { subst c. rewrite dlet_id. rewrite g_value_string.
+    change (g_string r) with (g_str_tok (34 :: r)). apply parseString_spec; auto. lia. }
+  destruct (Z.eqb_spec c 110) as [C4|C4].
+  { subst c. rewrite g_value_null. change (strip_prefix [117; 108; 108] r) with (strip_prefix [110; 117; 108; 108] (110 :: r)).
+    pose proof (lit_spec [110; 117; 108; 108] (110 :: r) json_Null ltac:(discriminate)) as L.
+    unfold json_decoder_parseNull, json_hasNullPrefix.
+    change (len [110; 117; 108; 108]) with 4 in L.
+    destruct ((len (110 :: r) >=? 4) && bytes_eqb (slice_to (110 :: r) 4) [110; 117; 108; 108]); [exact L|].
+    destruct (len (110 :: r) <? 4); exact L. }
+  destruct (Z.eqb_spec c 116) as [C5|C5].
+  { subst c. rewrite g_value_true. change (strip_prefix [114; 117; 101] r) with (strip_prefix [116; 114; 117; 101] (116 :: r)).
+    pose proof (lit_spec [116; 114; 117; 101] (116 :: r) json_True ltac:(discriminate)) as L.
+    unfold json_decoder_parseTrue, json_hasTruePrefix.
+    change (len [116; 114; 117; 101]) with 4 in L.
+    destruct ((len (116 :: r) >=? 4) && bytes_eqb (slice_to (116 :: r) 4) [116; 114; 117; 101]); [exact L|].
+    destruct (len (116 :: r) <? 4); exact L. }
+  destruct (Z.eqb_spec c 102) as [C6|C6].
+  { subst c. rewrite g_value_false. change (strip_prefix [97; 108; 115; 101] r) with (strip_prefix [102; 97; 108; 115; 101] (102 :: r)).
+    pose proof (lit_spec [102; 97; 108; 115; 101] (102 :: r) json_False ltac:(discriminate)) as L.
+    unfold json_decoder_parseFalse, json_hasFalsePrefix.
+    change (len [102; 97; 108; 115; 101]) with 5 in L.
+    destruct ((len (102 :: r) >=? 5) && bytes_eqb (slice_to (102 :: r) 5) [102; 97; 108; 115; 101]); [exact L|].
+    destruct (len (102 :: r) <? 5); exact L. }
+  rewrite g_value_other by lia.
+  match goal with |- context [if ?t then _ else _] => destruct t eqn:T end.
+  - rewrite dlet_id. apply parseNumber_spec; auto. lia.
+  - rewrite g_number_bad; [apply ok_at_err|lia|]. unfold is_digit.
+    destruct (Z.leb_spec 48 c), (Z.leb_spec c 57); try reflexivity. exfalso. lia.
+Qed.
+
+(* ================= parse_value_grammar ================= *)
+Lemma parse_value_grammar : parse_value_grammar_statement.
+Proof.
+  intros b d fuel Hw Hl Hfs Hfuel.
+  destruct (pv_all d fuel b (S (length b)) Hw Hl Hfs Hfuel ltac:(lia)) as (v & r & k & e & E & Hok & Herr).
+  exists v, r, k, e. split; [assumption|]. split.
+  - split.
+    + intros He. destruct (Hok He) as [G _]. exists r. assumption.
+    + intros [r' G]. destruct e as [e|]; [|reflexivity]. rewrite Herr in G by discriminate. discriminate.
+  - intros He. destruct (Hok He) as (G & j & _ & J2 & J3). split; [assumption|]. subst v r. symmetry. apply st_sf.
+Qed.
+
+(* ================= internalParseFlags ================= *)
+Definition tts_loop (b : bytes) : nat -> Z -> option bytes :=
+  fix loop2_ (f3_ : nat) (i : Z) {struct f3_} : (option bytes) :=
+    match f3_ with
+    | O => None
+    | S f4_ =>
+      if (i >=? 0) then
+        (let tag6_ := at_ b i in
+      if ((tag6_ =? json_sp) || (tag6_ =? json_ht) || (tag6_ =? json_nl) || (tag6_ =? json_cr)) then
+        (loop2_ f4_ (subi64 i 1))
+      else (Some (slice_to b (addi64 i 1))))
+      else Some (slice_to b (addi64 i 1))
+    end.
+Lemma trimTrailingSpacesN_eq fuel b : json_trimTrailingSpacesN fuel b = tts_loop b fuel (subi64 (len b) 1).
+Proof. reflexivity. Qed.
+Lemma sf_unfold (b : bytes) i : 0 <= i < len b -> slice_from b i = at_ b i :: slice_from b (i + 1).
+Proof.
+  intros H. destruct (slice_from b i) as [|c r] eqn:E.
+  - apply sf_nil in E; lia.
+  - apply sf_cons in E; [|lia]. destruct E as (_ & E2 & E3). rewrite E2, E3. reflexivity.
+Qed.
+Lemma tts_loop_spec b : len b < 2 ^ 62 -> forall fuel i, -1 <= i < len b ->
+  forallb is_ws (slice_from b (i + 1)) = true -> (Z.to_nat (i + 1) < fuel)%nat ->
+  exists j, -1 <= j <= i /\ tts_loop b fuel i = Some (slice_to b (j + 1)) /\
+    forallb is_ws (slice_from b (j + 1)) = true.
+Proof.
+  intros Hb. induction fuel as [|f IH]; intros i Hi Hws Hf; [lia|].
+  cbn [tts_loop]. destruct (Z.geb_spec i 0) as [G|G].
+  - cbv zeta. rewrite is_ws_unfold. destruct (is_ws (at_ b i)) eqn:W.
+    + rewrite subi64_small by lia.
+      destruct (IH (i - 1)) as (j & J1 & J2 & J3); [lia| |lia|].
+      * replace (i - 1 + 1) with i by lia. rewrite sf_unfold by lia. cbn [forallb]. rewrite W, Hws. reflexivity.
+      * exists j. split; [lia|]. split; assumption.
+    + rewrite addi64_small by lia. exists i. split; [lia|]. split; [reflexivity|assumption].
+  - rewrite addi64_small by lia. exists i. split; [lia|]. split; [reflexivity|assumption].
+Qed.
+Lemma trimTrailingSpaces_spec fuel b : len b < 2 ^ 62 -> (length b < fuel)%nat ->
+  exists b2 t, json_trimTrailingSpaces fuel b = Some b2 /\ b = b2 ++ t /\ forallb is_ws t = true.
+Proof.
+  intros Hb Hf. unfold json_trimTrailingSpaces. cbv zeta.
+  destruct (((len b) >? 0) && ((at_ b (subi64 (len b) 1)) <=? 32)) eqn:C.
+  - rewrite trimTrailingSpacesN_eq. pose proof (len_nonneg b).
+    rewrite subi64_small by lia.
+    destruct (tts_loop_spec b Hb fuel (len b - 1)) as (j & J1 & J2 & J3).
+    + lia.
+    + replace (len b - 1 + 1) with (len b) by lia. rewrite sf_all. reflexivity.
+    + unfold len in *. lia.
+    + rewrite J2. cbn [obind]. exists (slice_to b (j + 1)), (slice_from b (j + 1)).
+      split; [reflexivity|]. split; [symmetry; apply st_sf|assumption].
+  - exists b, []. split; [reflexivity|]. split; [symmetry; apply app_nil_r|reflexivity].
+Qed.
+
+Lemma index_byte_none b c : index_byte b c =? -1 = true -> forallb (fun x => negb (eqc c x)) b = true.
+Proof.
+  rewrite index_byte_find. pose proof (find_index_le (eqc c) b).
+  destruct (Nat.ltb_spec (find_index (eqc c) b) (length b)); [lia|]. intros _.
+  apply find_index_none. lia.
+Qed.
+
+Lemma ipf_spec fuel b : wfb b = true -> len b < 2 ^ 62 -> (length b + 2 <= fuel)%nat -> skip_ws b = b ->
+  exists d, json_internalParseFlags fuel b = Some d /\ flags_sound d b.
+Proof.
+  intros Hw Hb Hf Hs. unfold json_internalParseFlags. cbv zeta. rewrite skipSpaces_spec, Hs.
+  destruct (trimTrailingSpaces_spec fuel b Hb ltac:(lia)) as (b2 & t & E1 & E2 & E3).
+  rewrite E1. cbn [obind].
+  assert (W2 : wfb b2 = true) by (rewrite E2 in Hw; apply wfb_app in Hw; tauto).
+  assert (L2 : len b2 < 2 ^ 63).
+  { rewrite E2, len_app in Hb. pose proof (len_nonneg t).
+    change (2 ^ 62) with 4611686018427387904 in Hb. change (2 ^ 63) with 9223372036854775808. lia. }
+  destruct (valid_print_spec b2 W2 L2) as [_ VP].
+  assert (NB : index_byte b2 92 =? -1 = true -> forallb (fun c => negb (c =? 92)) b = true).
+  { intros H. apply index_byte_none in H. rewrite E2, forallb_app. apply andb_true_iff. split; [exact H|].
+    clear - E3. induction t as [|x t IH]; [reflexivity|]. cbn [forallb] in *. apply andb_true_iff in E3.
+    destruct E3 as [X1 X2]. rewrite IH by assumption. unfold is_ws in X1. lia. }
+  assert (PR : ascii_ValidPrint b2 = true ->
+    exists p t, b = p ++ t /\ forallb (fun c => (32 <=? c) && (c <=? 126)) p = true /\ forallb is_ws t = true).
+  { intros H. rewrite VP in H. exists b2, t. auto. }
+  destruct (ascii_ValidPrint b2) eqn:AV; destruct (index_byte b2 92 =? -1) eqn:IB;
+    eexists; (split; [reflexivity|]); split; intros H; try discriminate H; auto.
+Qed.
+
+Lemma internal_flags_sound_with_hyp : forall b fuel d, wfb b = true -> len b < 2 ^ 62 -> (length b + 2 <= fuel)%nat ->
+  skip_ws b = b ->
+  json_internalParseFlags fuel b = Some d -> flags_sound d b /\ forall suffix pre, b = pre ++ suffix -> flags_sound d suffix.
+Proof.
+  intros b fuel d Hw Hb Hf Hs E. destruct (ipf_spec fuel b Hw Hb Hf Hs) as (d' & E' & FS).
+  rewrite E in E'. injection E' as ->. split; [assumption|]. intros suffix pre Eb. rewrite Eb in FS.
+  apply flags_sound_suffix in FS. assumption.
+Qed.
+
+(* the unrestricted statement fails on inputs with leading white space other than the space character *)
+Lemma internal_flags_sound_statement_refuted : ~ internal_flags_sound_statement.
+Proof.
+  intros H. destruct (H [10; 49] 4%nat 805306368 eq_refl eq_refl ltac:(cbn; lia) eq_refl) as [[_ F] _].
+  destruct (F eq_refl) as (p & t & E & Hp & Ht).
+  destruct p as [|x p].
+  - cbn [app] in E. subst t. discriminate Ht.
+  - cbn [app] in E. injection E as E1 E2. subst x. discriminate Hp.
+Qed.
+
+(* ================= Valid ================= *)
+Lemma valid_agrees : valid_agrees_statement.
+Proof.
+  intros b fuel Hw Hb Hf. unfold json_Valid. cbv zeta. rewrite !skipSpaces_spec.
+  pose proof (skip_ws_length b) as SL.
+  destruct (skip_ws_suffix b) as (pre & Epre & _).
+  assert (W1 : wfb (skip_ws b) = true) by (rewrite Epre in Hw; apply wfb_app in Hw; tauto).
+  assert (L1 : len (skip_ws b) < 2 ^ 62) by (unfold len in *; lia).
+  destruct (ipf_spec fuel (skip_ws b) W1 L1 ltac:(lia) (skip_ws_idem b)) as (d & E & FS).
+  rewrite E. cbn [obind].
+  destruct (pv_all d fuel (skip_ws b) (S (length b)) W1 L1 FS ltac:(lia) ltac:(lia)) as (v & r & k & e & Ev & Hok & Herr).
+  rewrite Ev. cbn [obind]. unfold g_valid. destruct e as [e|]; cbn [isnil negb].
+  - rewrite Herr by discriminate. reflexivity.
+  - destruct (Hok eq_refl) as [G _]. rewrite G, skipSpaces_spec. f_equal.
+    destruct (skip_ws r) as [|x l]; [reflexivity|]. apply len_cons_nz.
+Qed.
+Lemma valid_std : valid_std_statement.
+Proof.
+  intros b fuel Hw Hb Hf Hd. rewrite valid_agrees by assumption. unfold std_valid.
+  destruct (Z.leb_spec (max_depth b) 10000); [|lia]. rewrite andb_true_r. reflexivity.
+Qed.
+
+(* the Go function returns the index INSIDE its 8-byte chunk: the statement of Spec.v fails from 16 bytes on *)
+Lemma escape_index_statement_refuted : ~ escape_index_statement.
+Proof.
+  intros H.
+  specialize (H [97; 97; 97; 97; 97; 97; 97; 97; 34; 97; 97; 97; 97; 97; 97; 97] false 18%nat eq_refl eq_refl ltac:(cbn; lia)).
+  vm_compute in H. discriminate H.
+Qed.
+
+(* ================= the two statements of Spec.v that do not hold as written ================= *)
+
+(* STATEMENT FALSE: s = [97;97;97;97;97;97;97;97;34;97;97;97;97;97;97;97] (16 bytes: eight a, a double quote at index 8,
+   seven a), html = false:
+   json_escapeIndex 18 s false = Some 0 but first_index (needs_escape_json false) 0 s = 8
+   (likewise eleven a + quote + seven a gives Some 3 instead of 11): /repo/json/string.go escapeIndex returns
+   bits.TrailingZeros64(mask&msb)/8 inside the chunk loop WITHOUT adding 8*chunkIndex.  Machine-checked above as
+   [escape_index_statement_refuted].  What holds (and what the encoder relies on, since it only uses the result as the
+   starting point of its byte-wise loop): [escape_index_exact] (result = -1 iff no byte needs escaping; otherwise
+   0 <= result <= first index, result = first index mod 8 when it lies in a full chunk, else the first index itself)
+   and [escape_index_spec_with_hyp] (the statement itself for len s < 16). *)
 Lemma escape_index_spec : escape_index_statement.
 Admitted.
+
+(* STATEMENT FALSE / NEEDS-HYPOTHESIS: skip_ws b = b (no leading white space).
+   Counterexample: b = [10; 49] (a newline followed by the digit 1), fuel = 4: json_internalParseFlags 4 b = Some 805306368
+   (validAsciiPrint|noBackslash, computed on the trimmed input) but flags_sound 805306368 [10; 49] is false, because
+   [flags_sound] only tolerates TRAILING white space and 10 is not printable.  Machine-checked above as
+   [internal_flags_sound_statement_refuted].  This is a flaw of the statement, not of the Go code: json.Valid computes the
+   flags on already left-trimmed data, which is exactly the hypothesis of [internal_flags_sound_with_hyp] (proved, and
+   used by [valid_agrees]). *)
 Lemma internal_flags_sound : internal_flags_sound_statement.
-Admitted.
-Lemma parse_value_grammar : parse_value_grammar_statement.
-Admitted.
-Lemma valid_agrees : valid_agrees_statement.
-Admitted.
-Lemma valid_std : valid_std_statement.
 Admitted.
